@@ -1,5 +1,61 @@
 import Sqljson.Props.C09b
 import Sqljson.Props.C10
+/-!
+# C10 (path level) — a filter step over a path: subsequence, predicate check, fusion
+
+"The result of P ? (C) is the order-preserving subsequence of P's items (after one level of array unwrapping in
+lax mode) for which C evaluates to true with @ bound to the item; items for which C is false or unknown —
+including unknown caused by a suppressible error inside C — are dropped without aborting the query, and no item
+is altered or duplicated.  An item is kept exactly when C, rewritten as a predicate check expression over that
+item, yields true, and in strict mode consecutive filters (free of non-suppressible errors) equal one filter on
+their conjunction."
+
+`Props/C10.lean` proves this for one filter step on one item.  Here the statements about whole paths, obtained
+with the composition law (`C09b.compose_collect`, suffix `S` = the filter node).
+
+Vocabulary: `filterNode C` = `? (C)`; `append P (filterNode C)` = `P ? (C)`; `andNode C₁ C₂` = `(C₁ && C₂)`;
+`condRun c fuel s C x` = the evaluation of `C` with `@` = `x`; `holds … x : Bool` = its value is **true**;
+`condErr … x` = the non-suppressible error it raises (`none` otherwise: a suppressible error inside `C` gives
+*unknown*, `GoodP.noVerbose`/`C08`); `unwrap1 lax xs` = `xs` with arrays replaced by their elements in lax mode
+(`unwrap1_lax`: the executor's own `unwrapSeq`; `unwrap1_strict`: nothing in strict mode); `kept a doc o fuel C x`
+/ `hardErr …` = `holds` / `condErr` in the context of the query `a` on `doc` (`$` = `doc`).
+
+## 1. subsequence
+* `filter_scan_exec` (executor level, general): the run of `P ? (C)` returns the items of `P` (unwrapped) on which
+  `C` is true, up to the first item on which `C` raises a non-suppressible error; without such an error it ends
+  as `P` ended, with one it fails with that error there.  `filter_subsequence_exec`, `filter_first_error_exec`:
+  the two cases.
+* `filter_subsequence`: `Query(P, doc) = xs` and no hard error ⇒ `Query(P ? (C), doc) = (unwrap1 lax xs).filter kept`.
+  `filter_first_error`: the first hard error is the query's error.  `filter_no_duplication`: the result is a
+  `List.Sublist` of the unwrapped items and contains exactly the items on which `C` is true.
+## 2. predicate check
+* `predicate_check_eq`, `kept_iff_predicate_check`, `kept_iff_match`: `x` is kept by `? (C)` iff the predicate check
+  path with root `C`, evaluated on the **document `x`**, returns `[true]` (`Query`) / `true` (`Match`).  At the top
+  level of a query `@` is bound to the document (`initSt.current = doc`), exactly like `$`; so over the item `x`
+  the AST `C` itself already is a predicate check expression.  Side condition: no `$` in `C` (inside the filter
+  `$` is the original document, in the check it would be `x`).
+* `atToRoot` is the syntactic rewriting `@` ↦ `$` (free occurrences only: a nested filter condition keeps its own
+  `@`); `atToRoot_closed`: no free `@` is left.  `Aux.sub_all` (a simulation over every executor function, by
+  induction on the fuel): from a state with `@` = `$` the run of `atToRoot n` is the run of `n`, for nodes
+  without `.keyvalue()` (`$` also resets the base object of the generated ids).  Hence
+  `kept_iff_rewritten_check` / `kept_iff_rewritten_match`: **`x` is kept iff `C` rewritten as a predicate check
+  expression (`atToRoot C`) over `x` yields true**; side conditions `Indep checkable C` (no `$`, no `.keyvalue()`),
+  `C` a predicate node with no chained step, its evaluation on `x` finishes and does not panic.
+## 3. fusion
+* `filter_fusion_exec`, `filter_fusion` (both modes), `strict_filter_fusion`: `P ? (C₁) ? (C₂)` and `P ? (C₁ && C₂)`
+  return the same — the items on which both are true — provided neither condition raises a non-suppressible error
+  on the items of `P`, and, in lax mode, no item that passes `C₁` is an array.
+* `counterexample_lax_fusion`: without that proviso fusion is **false in lax mode** (the second filter unwraps the
+  arrays the first one kept).
+
+## Side conditions (exactly)
+* `Indep sufFlags C`: `C` contains no `.keyvalue()` and no `last` outside a subscript (its ids / the array size
+  would depend on where in the run `C` is evaluated); `$`, `@`, variables, nested filters are allowed.
+* `o.budget = none` (never cancelled); `a.lax ∨ NoAny P` (`C09b`: no `.**` in a strict prefix);
+* fuel: the composed queries do not return `outOfFuel` (for fusion also `P ? (C₁)`); panics: they do not return
+  `panic` (a condition may panic — e.g. a bad regex under `is unknown` — without raising an error);
+* "no hard error": `hardErr … x = none` for the items concerned, evaluated with the query's fuel.
+-/
 
 namespace Sqljson
 namespace C10b
@@ -102,12 +158,39 @@ theorem scan_ok (xs : List Item) (h : ∀ x ∈ xs, err x = none) : scan keep er
   | nil => rfl
   | cons x xs ih =>
     rw [scan_cons_none keep err _ (h x (by simp)), ih (fun y hy => h y (by simp [hy]))]
-    by_cases hk : keep x <;> simp [List.filter_cons, hk]
+    by_cases hk : keep x <;> simp [hk]
 
 theorem scan_err (ys zs : List Item) (x : Item) (e : Err) (h : ∀ y ∈ ys, err y = none) (hx : err x = some e) :
     scan keep err (ys ++ x :: zs) = (ys.filter keep, some e) := by
   rw [scan_append, scan_ok keep err ys h, scan_cons_some keep err _ hx]
   simp
+
+/-- `fin` holds for every item up to and including the first one with an error -/
+def scanFin (fin : Item → Prop) : List Item → Prop
+  | [] => True
+  | x :: xs => fin x ∧ (err x = none → scanFin fin xs)
+
+theorem scanFin_single (fin : Item → Prop) (x : Item) (h : fin x) : scanFin err fin [x] := ⟨h, fun _ => trivial⟩
+
+theorem scanFin_append (fin : Item → Prop) (xs ys : List Item) :
+    scanFin err fin (xs ++ ys) ↔ scanFin err fin xs ∧ ((scan keep err xs).2 = none → scanFin err fin ys) := by
+  induction xs with
+  | nil => simp [scanFin, scan]
+  | cons x xs ih =>
+    simp only [List.cons_append, scanFin, ih]
+    cases hx : err x with
+    | some e => simp [scan, hx]
+    | none => simp [scan_cons_none keep err _ hx, and_assoc]
+
+theorem scanFin_all (fin : Item → Prop) (xs : List Item) (h : scanFin err fin xs) (he : ∀ x ∈ xs, err x = none) :
+    ∀ x ∈ xs, fin x := by
+  induction xs with
+  | nil => intro x hx; simp at hx
+  | cons y ys ih =>
+    intro x hx
+    rcases List.mem_cons.mp hx with rfl | hx
+    · exact h.1
+    · exact ih (h.2 (he y (by simp))) (fun z hz => he z (by simp [hz])) x hx
 
 end scan
 
@@ -189,7 +272,7 @@ structure Scanned (l ys : List Item) (r : Res) : Prop where
   found : r.found = some (l ++ (scan (holds c K s C) (condErr c K s C) ys).1)
   err : r.err = (scan (holds c K s C) (condErr c K s C) ys).2
   failed : r.status = .failed ↔ (scan (holds c K s C) (condErr c K s C) ys).2 ≠ none
-  fin : (scan (holds c K s C) (condErr c K s C) ys).2 = none → ∀ x ∈ ys, (condRun c K s C x).st.oof = false
+  fin : scanFin (condErr c K s C) (fun x => (condRun c K s C x).st.oof = false) ys
 
 variable {c C s K}
 
@@ -216,7 +299,7 @@ theorem filter_step (hC : Indep kvFree C = true) {t : St} (hr : Rel s t) (fuel :
       exact ⟨by simp [St.ctxEq]; grind, a2, a3, hr.sbud⟩
     have hE : condErr c K s C x = (xBool c k { t with current := x } C x false).err := h2.symm
     have hH : holds c K s C x = decide ((xBool c k { t with current := x } C x false).out = .t) := by
-      simp only [holds, condRun, h1]
+      unfold holds condRun; rw [h1]
     have hF : (condRun c K s C x).st.oof = false := h4
     generalize xBool c k { t with current := x } C x false = q at *
     obtain ⟨qs, qo, qe⟩ := q
@@ -224,22 +307,1658 @@ theorem filter_step (hC : Indep kvFree C = true) {t : St} (hr : Rel s t) (fuel :
     cases qe with
     | some e =>
       simp only [Option.isSome_some, if_true]
-      exact ⟨h3', by simp [scan, hE], by simp [scan, hE], by simp [scan, hE], by simp [scan, hE]⟩
+      exact ⟨h3', by simp [scan, hE], by simp [scan, hE], by simp [scan, hE], scanFin_single _ _ _ hF⟩
     | none =>
       simp only [Option.isSome_none, Bool.false_eq_true, if_false]
       by_cases ht : qo = .t
       · simp only [ht, ne_eq, not_true_eq_false, if_false]
         have hH' : holds c K s C x = true := by rw [hH]; simp [ht]
         exact ⟨h3', by simp [scan, hE, hH'], by simp [scan, hE], by simp [scan, hE],
-          fun _ y hy => by simp at hy; rw [hy]; exact hF⟩
+          scanFin_single _ _ _ hF⟩
       · simp only [ne_eq, ht, not_false_eq_true, if_true]
         have hH' : holds c K s C x = false := by rw [hH]; simp [ht]
         exact ⟨h3', by simp [scan, hE, hH'], by simp [scan, hE], by simp [scan, hE],
-          fun _ y hy => by simp at hy; rw [hy]; exact hF⟩
+          scanFin_single _ _ _ hF⟩
 
 end step
 
+/-! ### the two loops: the element loop of an unwrapped array, and the feed -/
+
+section loops
+variable {c : Ctx} {C : Node} {s : St} {K : Nat}
+
+theorem Scanned.append_err {l ys : List Item} {r : Res} (h : Scanned c C s K l ys r) (zs : List Item)
+    (he : (scan (holds c K s C) (condErr c K s C) ys).2 ≠ none) : Scanned c C s K l (ys ++ zs) r := by
+  have e : scan (holds c K s C) (condErr c K s C) (ys ++ zs) = scan (holds c K s C) (condErr c K s C) ys := by
+    rw [scan_append, if_neg he]
+  exact ⟨h.rel, by rw [e]; exact h.found, by rw [e]; exact h.err, by rw [e]; exact h.failed,
+    (scanFin_append (holds c K s C) _ _ ys zs).mpr ⟨h.fin, fun h0 => absurd h0 he⟩⟩
+
+theorem Scanned.append_ok {l ys zs : List Item} {r : Res}
+    (he : (scan (holds c K s C) (condErr c K s C) ys).2 = none)
+    (hf : scanFin (condErr c K s C) (fun x => (condRun c K s C x).st.oof = false) ys)
+    (h : Scanned c C s K (l ++ (scan (holds c K s C) (condErr c K s C) ys).1) zs r) :
+    Scanned c C s K l (ys ++ zs) r := by
+  have e : scan (holds c K s C) (condErr c K s C) (ys ++ zs) =
+      ((scan (holds c K s C) (condErr c K s C) ys).1 ++ (scan (holds c K s C) (condErr c K s C) zs).1,
+        (scan (holds c K s C) (condErr c K s C) zs).2) := by
+    rw [scan_append, if_pos he]
+  exact ⟨h.rel, by rw [e, h.found, List.append_assoc], by rw [e]; exact h.err, by rw [e]; exact h.failed,
+    (scanFin_append (holds c K s C) _ _ ys zs).mpr ⟨hf, fun _ => h.fin⟩⟩
+
+/-- the loop body of `executeAnyItem` for the elements of an array handed to the filter -/
+abbrev uStep (c : Ctx) (k : Nat) (C : Node) : AAcc → Item → AAcc :=
+  anyStep (xItem c k) (xAny c k) (some (filterNode C)) 1 1 1 false false
+
+theorem uStep_eq (k : Nat) (a : AAcc) (y : Item) (hr : a.ret = none) :
+    uStep c k C a y =
+      if (xItem c k a.st (filterNode C) y a.found false).status = .failed ||
+          ((xItem c k a.st (filterNode C) y a.found false).status = .ok && a.found.isNone) then
+        ⟨(xItem c k a.st (filterNode C) y a.found false).st, (xItem c k a.st (filterNode C) y a.found false).found,
+          (xItem c k a.st (filterNode C) y a.found false).status, (xItem c k a.st (filterNode C) y a.found false).err,
+          some (xItem c k a.st (filterNode C) y a.found false)⟩
+      else
+        ⟨(xItem c k a.st (filterNode C) y a.found false).st, (xItem c k a.st (filterNode C) y a.found false).found,
+          (xItem c k a.st (filterNode C) y a.found false).status, (xItem c k a.st (filterNode C) y a.found false).err,
+          none⟩ := by
+  unfold uStep anyStep
+  simp only [hr]
+  unfold anyVisit
+  simp only [ge_iff_le, Nat.le_refl, decide_true, Bool.true_or, if_true, Bool.false_eq_true, if_false]
+  unfold anyDescend
+  split <;> simp_all
+
+theorem uStep_ret (k : Nat) (a : AAcc) (y : Item) (r0 : Res) (hr : a.ret = some r0) : uStep c k C a y = a := by
+  unfold uStep anyStep; simp only [hr]
+
+theorem fold_ret (k : Nat) (ys : List Item) (a : AAcc) (r0 : Res) (hr : a.ret = some r0) :
+    ys.foldl (uStep c k C) a = a := by
+  induction ys with
+  | nil => rfl
+  | cons y ys ih => simp only [List.foldl_cons]; rw [uStep_ret k a y r0 hr]; exact ih
+
+/-- the `oof` flag of a loop state -/
+def accOof (a : AAcc) : Bool :=
+  match a.ret with
+  | some r => r.st.oof
+  | none => a.st.oof
+
+theorem accOof_none {a : AAcc} (h : a.ret = none) : accOof a = a.st.oof := by simp [accOof, h]
+theorem accOof_some {a : AAcc} {r : Res} (h : a.ret = some r) : accOof a = r.st.oof := by simp [accOof, h]
+
+theorem uStep_oof (k : Nat) (a : AAcc) (y : Item) (hr : a.ret = none) :
+    accOof (uStep c k C a y) = (xItem c k a.st (filterNode C) y a.found false).st.oof := by
+  rw [uStep_eq k a y hr]
+  split <;> simp [accOof]
+
+theorem uStep_sticky (k : Nat) (a : AAcc) (y : Item) (h : accOof (uStep c k C a y) = false) : accOof a = false := by
+  cases hr : a.ret with
+  | some r0 => rw [uStep_ret k a y r0 hr] at h; exact h
+  | none =>
+    rw [uStep_oof k a y hr] at h
+    rw [accOof_none hr]
+    exact Exec.Fuel.xItem_oof_sticky c k a.st _ y a.found false h
+
+theorem fold_sticky (k : Nat) (ys : List Item) : ∀ a : AAcc, accOof (ys.foldl (uStep c k C) a) = false → accOof a = false := by
+  induction ys with
+  | nil => intro a h; exact h
+  | cons y ys ih => intro a h; exact uStep_sticky k a y (ih _ h)
+
+theorem unwrap_fold (hC : Indep kvFree C = true) (k : Nat) (hk : k ≤ K) : ∀ (ys : List Item) (a : AAcc) (l : List Item),
+    a.ret = none → Rel s a.st → a.found = some l → a.err = none → a.res ≠ .failed →
+    accOof (ys.foldl (uStep c k C) a) = false →
+    ((scan (holds c K s C) (condErr c K s C) ys).2 = none →
+      (ys.foldl (uStep c k C) a).ret = none ∧ Rel s (ys.foldl (uStep c k C) a).st ∧
+      (ys.foldl (uStep c k C) a).found = some (l ++ (scan (holds c K s C) (condErr c K s C) ys).1) ∧
+      (ys.foldl (uStep c k C) a).err = none ∧ (ys.foldl (uStep c k C) a).res ≠ .failed) ∧
+    (∀ e, (scan (holds c K s C) (condErr c K s C) ys).2 = some e →
+      ∃ r, (ys.foldl (uStep c k C) a).ret = some r ∧ Rel s r.st ∧
+        r.found = some (l ++ (scan (holds c K s C) (condErr c K s C) ys).1) ∧ r.err = some e ∧ r.status = .failed) ∧
+    scanFin (condErr c K s C) (fun x => (condRun c K s C x).st.oof = false) ys := by
+  intro ys
+  induction ys with
+  | nil =>
+    intro a l hret hrel hfound herr hres _
+    refine ⟨fun _ => ⟨hret, hrel, by simp [scan, hfound], herr, hres⟩, fun e he => ?_, trivial⟩
+    simp [scan] at he
+  | cons y ys ih =>
+    intro a l hret hrel hfound herr hres hfin
+    simp only [List.foldl_cons] at hfin ⊢
+    have hst := fold_sticky k ys _ hfin
+    rw [uStep_oof k a y hret, hfound] at hst
+    have hsc := filter_step hC hrel k hk y l false (Or.inr rfl) hst
+    have hstep := uStep_eq (c := c) (C := C) k a y hret
+    rw [hfound] at hstep
+    cases he : condErr c K s C y with
+    | some e =>
+      have hs1 : scan (holds c K s C) (condErr c K s C) [y] = ([], some e) := scan_cons_some _ _ _ he
+      have hsY : scan (holds c K s C) (condErr c K s C) (y :: ys) = ([], some e) := scan_cons_some _ _ _ he
+      have hf : (xItem c k a.st (filterNode C) y (some l) false).status = .failed := by
+        rw [hsc.failed, hs1]; simp
+      rw [hf] at hstep
+      simp only [decide_true, Bool.true_or, if_true] at hstep
+      rw [hstep, fold_ret k ys _ _ rfl, hsY]
+      refine ⟨fun h => by simp at h, fun e' he' => ?_, ⟨hsc.fin.1, fun h => by rw [he] at h; simp at h⟩⟩
+      simp only [Option.some.injEq] at he'
+      subst he'
+      refine ⟨_, rfl, hsc.rel, ?_, ?_, hf⟩
+      · rw [hsc.found, hs1]
+      · rw [hsc.err, hs1]
+    | none =>
+      have hs1 : scan (holds c K s C) (condErr c K s C) [y] = (if holds c K s C y then [y] else [], none) := by
+        rw [scan_cons_none _ _ _ he]; simp [scan]
+      have hsY := scan_cons_none (holds c K s C) (condErr c K s C) ys he
+      have hnf : (xItem c k a.st (filterNode C) y (some l) false).status ≠ .failed := by
+        rw [Ne, hsc.failed, hs1]; simp
+      have hcond : ((xItem c k a.st (filterNode C) y (some l) false).status = .failed ||
+          ((xItem c k a.st (filterNode C) y (some l) false).status = .ok && (some l : Found).isNone)) = false := by
+        simp [hnf]
+      rw [hcond] at hstep
+      simp only [Bool.false_eq_true, if_false] at hstep
+      rw [hstep] at hfin ⊢
+      have hfd := hsc.found
+      have her := hsc.err
+      rw [hs1] at hfd her
+      have := ih ⟨_, _, _, _, none⟩ (l ++ if holds c K s C y then [y] else []) rfl hsc.rel hfd her hnf hfin
+      obtain ⟨i1, i2, i3⟩ := this
+      rw [hsY]
+      refine ⟨fun h0 => ?_, fun e' he' => ?_, ⟨hsc.fin.1, fun _ => i3⟩⟩
+      · obtain ⟨j1, j2, j3, j4, j5⟩ := i1 h0
+        exact ⟨j1, j2, by rw [j3, List.append_assoc], j4, j5⟩
+      · obtain ⟨r, k1, k2, k3, k4, k5⟩ := i2 e' he'
+        exact ⟨r, k1, k2, by rw [k3, List.append_assoc], k4, k5⟩
+
+end loops
+
+section loops2
+variable {c : Ctx} {C : Node} {s : St} {K : Nat}
+
+theorem Rel.setIgn {s t : St} (h : Rel s t) {t0 : St} (h0 : Rel s t0) : Rel s { t with ignoreSE := t0.ignoreSE } := by
+  have e : ({ t with ignoreSE := t0.ignoreSE } : St) = t := by
+    have h1 := h.ctx; have h2 := h0.ctx
+    simp [St.ctxEq] at h1 h2
+    cases t; simp at h1 ⊢; grind
+  rw [e]; exact h
+
+/-- the elements of an array handed to the filter in lax mode: each is filtered (not unwrapped again) -/
+theorem unwrap_scan (hC : Indep kvFree C = true) {t : St} (hr : Rel s t) (fuel : Nat) (hk : fuel ≤ K) (ys l : List Item)
+    (ho : (xAny c fuel t (some (filterNode C)) ys (some l) 1 1 1 false false).st.oof = false) :
+    Scanned c C s K l ys (xAny c fuel t (some (filterNode C)) ys (some l) 1 1 1 false false) := by
+  cases fuel with
+  | zero => simp [xAny] at ho
+  | succ k =>
+    simp only [xAny, executeAnyItem, gt_iff_lt, Nat.lt_irrefl, if_false] at ho ⊢
+    have hA : accOof (ys.foldl (uStep c k C) ⟨t, some l, .notFound, none, none⟩) = false := by
+      cases hret : (ys.foldl (uStep c k C) ⟨t, some l, .notFound, none, none⟩).ret with
+      | some r => rw [accOof_some hret]; simp only [uStep] at hret; simp only [hret] at ho; exact ho
+      | none => rw [accOof_none hret]; simp only [uStep] at hret; simp only [hret] at ho; exact ho
+    obtain ⟨h1, h2, h3⟩ := unwrap_fold hC k (show k ≤ K by omega) ys ⟨t, some l, .notFound, none, none⟩ l rfl hr rfl rfl (by simp) hA
+    simp only [uStep] at h1 h2
+    cases hs : (scan (holds c K s C) (condErr c K s C) ys).2 with
+    | none =>
+      obtain ⟨j1, j2, j3, j4, j5⟩ := h1 hs
+      simp only [j1, j3, j4]
+      refine ⟨j2.setIgn hr, rfl, by rw [hs], ?_, h3⟩
+      simp only [hs, ne_eq, not_true_eq_false, iff_false]
+      split
+      · simp
+      · exact j5
+    | some e =>
+      obtain ⟨r, k1, k2, k3, k4, k5⟩ := h2 e hs
+      simp only [k1]
+      exact ⟨k2.setIgn hr, k3, by rw [hs]; exact k4, by simp [hs, k5], h3⟩
+
+/-- **one item handed to the filter step**: in lax mode an array is unwrapped one level -/
+theorem item_scan (hC : Indep kvFree C = true) {t : St} (hr : Rel s t) (fuel : Nat) (hk : fuel ≤ K) (x : Item)
+    (l : List Item) (ho : (xItem c fuel t (filterNode C) x (some l) c.lax).st.oof = false) :
+    Scanned c C s K l (expand c.lax x) (xItem c fuel t (filterNode C) x (some l) c.lax) := by
+  have hplain : (x.isArr = false ∨ c.lax = false) → expand c.lax x = [x] := by
+    intro h; cases x <;> simp_all [expand, Item.isArr]
+  by_cases hx : x.isArr = false ∨ c.lax = false
+  · rw [hplain hx]
+    exact filter_step hC hr fuel hk x l c.lax hx ho
+  · have hl : c.lax = true := by cases h : c.lax <;> simp_all
+    cases x with
+    | arr ys =>
+      cases fuel with
+      | zero => simp [xItem] at ho
+      | succ k =>
+        rw [hl] at ho ⊢
+        simp only [xItem] at ho ⊢
+        rw [poll_of_budget_none hr.bud] at ho ⊢
+        simp only [dispatch, filterNode, execUnaryNode, unwrapTargetArray] at ho ⊢
+        simp only [expand, if_true]
+        exact unwrap_scan hC hr k (by omega) ys l ho
+    | _ => simp [Item.isArr] at hx
+
+/-- **the feed of the items `xs` to the filter step** -/
+theorem feed_scan (hC : Indep kvFree C = true) (fuel : Nat) (hk : fuel ≤ K) : ∀ (xs : List Item) (t : St) (l : List Item),
+    Rel s t → (C09b.feed c (filterNode C) fuel t l xs).st.oof = false →
+    Scanned c C s K l (unwrap1 c.lax xs) (C09b.feed c (filterNode C) fuel t l xs) := by
+  intro xs
+  induction xs with
+  | nil =>
+    intro t l hr _
+    exact ⟨hr, by simp [C09b.feed_nil, unwrap1, scan], rfl, by simp [C09b.feed_nil, unwrap1, scan], trivial⟩
+  | cons x xs ih =>
+    intro t l hr ho
+    have hro := C09b.feed_head_oof (filterNode C) c fuel t l x xs ho
+    have hsc := item_scan hC hr fuel hk x l hro
+    have hu : unwrap1 c.lax (x :: xs) = expand c.lax x ++ unwrap1 c.lax xs := by simp [unwrap1]
+    rw [hu]
+    rw [C09b.feed_cons] at ho ⊢
+    by_cases hf : (xItem c fuel t (filterNode C) x (some l) c.lax).status = .failed
+    · rw [if_pos hf]
+      exact hsc.append_err _ (hsc.failed.mp hf)
+    · rw [if_neg hf] at ho ⊢
+      have he : (scan (holds c K s C) (condErr c K s C) (expand c.lax x)).2 = none := by
+        cases h : (scan (holds c K s C) (condErr c K s C) (expand c.lax x)).2 with
+        | none => rfl
+        | some e => exact absurd (hsc.failed.mpr (by rw [h]; simp)) hf
+      rw [hsc.found] at ho ⊢
+      simp only [Option.getD_some] at ho ⊢
+      exact Scanned.append_ok he hsc.fin (ih _ _ hsc.rel ho)
+
+end loops2
+
+/-! ### appending a filter keeps the chain free of `.**` -/
+
+mutual
+  theorem noAny_append : ∀ (p s : Node), NoAny (append p s) = (NoAny p && NoAny s)
+    | .const _ nx, s | .method _ nx, s | .str _ nx, s | .var _ nx, s | .key _ nx, s | .numeric _ nx, s
+    | .integer _ nx, s | .binary _ _ _ nx, s | .unary _ _ nx, s | .regex _ _ _ nx, s | .arrayIndex _ nx, s => by
+      simp [append, NoAny, noAnyO_appendO nx s]
+    | .any _ _ _, s => by simp [append, NoAny]
+  theorem noAnyO_appendO : ∀ (nx : Option Node) (s : Node), NoAny (appendO nx s) = (NoAnyO nx && NoAny s)
+    | none, s => by simp
+    | some n, s => by simp [noAny_append n s]
+end
+
+theorem chainOK_append_filter {s : St} {P : Node} (h : s.ignoreSE = true ∨ NoAny P = true) (C : Node) :
+    s.ignoreSE = true ∨ NoAny (append P (filterNode C)) = true := by
+  rcases h with h | h
+  · exact Or.inl h
+  · right; rw [noAny_append, h]; simp [filterNode, NoAny]
+
+/-! ### the conjunction -/
+
+theorem and_run (c : Ctx) (k : Nat) (s : St) (C1 C2 : Node) (x : Item) :
+    condRun c (k + 1) s (andNode C1 C2) x =
+      if (xBool c k { s with current := x } C1 x false).out = .f ||
+          (xBool c k { s with current := x } C1 x false).err.isSome then xBool c k { s with current := x } C1 x false
+      else if (xBool c k (xBool c k { s with current := x } C1 x false).st C2 x false).out = .t then
+        ⟨(xBool c k (xBool c k { s with current := x } C1 x false).st C2 x false).st,
+          (xBool c k { s with current := x } C1 x false).out,
+          (xBool c k (xBool c k { s with current := x } C1 x false).st C2 x false).err⟩
+      else xBool c k (xBool c k { s with current := x } C1 x false).st C2 x false := by
+  simp only [condRun, xBool, andNode, executeBoolItem, executeBinaryBoolItem, Node.next]
+  rfl
+
+/-- **`(C₁ && C₂)` on an item**: if neither condition raises a non-suppressible error on `x` (and the evaluation of
+    the conjunction finishes), the conjunction raises none and is true exactly when both are -/
+theorem and_cond (c : Ctx) (C1 C2 : Node) (hC1 : Indep kvFree C1 = true) (hC2 : Indep kvFree C2 = true) (K : Nat)
+    (s : St) (hb : s.budget = none) (x : Item)
+    (ho : (condRun c K s (andNode C1 C2) x).st.oof = false)
+    (h1 : condErr c K s C1 x = none) (h2 : condErr c K s C2 x = none) :
+    condErr c K s (andNode C1 C2) x = none ∧
+      holds c K s (andNode C1 C2) x = (holds c K s C1 x && holds c K s C2 x) := by
+  cases K with
+  | zero => simp [condRun, xBool] at ho
+  | succ k =>
+    have hbx : ({ s with current := x } : St).budget = none := hb
+    unfold condErr holds at *
+    rw [and_run] at ho ⊢
+    -- the left operand finished
+    have hoa : (xBool c k { s with current := x } C1 x false).st.oof = false := by
+      split at ho
+      · exact ho
+      · split at ho
+        · exact Exec.Fuel.xBool_oof_sticky c k _ C2 x false ho
+        · exact Exec.Fuel.xBool_oof_sticky c k _ C2 x false ho
+    obtain ⟨a1, a2, a3, _⟩ := xBool_rel c C1 hC1 (Rel.refl hbx) k (k + 1) (by omega) x false hoa
+    have a1' : (xBool c k { s with current := x } C1 x false).out = (condRun c (k + 1) s C1 x).out := a1
+    have a2' : (xBool c k { s with current := x } C1 x false).err = none := by rw [a2]; exact h1
+    by_cases hcond : ((xBool c k { s with current := x } C1 x false).out = .f ||
+        (xBool c k { s with current := x } C1 x false).err.isSome) = true
+    · rw [if_pos hcond]
+      have hf : (xBool c k { s with current := x } C1 x false).out = .f := by simpa [a2'] using hcond
+      refine ⟨a2', ?_⟩
+      rw [← a1', hf]; simp
+    · rw [if_neg hcond] at ho ⊢
+      have hnf : (xBool c k { s with current := x } C1 x false).out ≠ .f := by
+        intro h; exact hcond (by simp [h])
+      have hob : (xBool c k (xBool c k { s with current := x } C1 x false).st C2 x false).st.oof = false := by
+        split at ho <;> exact ho
+      obtain ⟨b1, b2, _, _⟩ := xBool_rel c C2 hC2 a3 k (k + 1) (by omega) x false hob
+      have b1' : (xBool c k (xBool c k { s with current := x } C1 x false).st C2 x false).out =
+          (condRun c (k + 1) s C2 x).out := b1
+      have b2' : (xBool c k (xBool c k { s with current := x } C1 x false).st C2 x false).err = none := by
+        rw [b2]; exact h2
+      rw [← a1', ← b1']
+      generalize xBool c k (xBool c k { s with current := x } C1 x false).st C2 x false = B at *
+      generalize xBool c k { s with current := x } C1 x false = A at *
+      obtain ⟨As, Ao, Ae⟩ := A
+      obtain ⟨Bs, Bo, Be⟩ := B
+      simp only at a2' b2' hnf ⊢
+      subst a2'; subst b2'
+      clear a1 a1' b1 b1' b2 a2 h1 h2 a3 hoa hob ho hcond
+      cases Ao <;> cases Bo <;> simp at hnf ⊢
+
+theorem scan_and (c : Ctx) (C1 C2 : Node) (hC1 : Indep kvFree C1 = true) (hC2 : Indep kvFree C2 = true) (K : Nat)
+    (s : St) (hb : s.budget = none) (ys : List Item)
+    (hfin : scanFin (condErr c K s (andNode C1 C2)) (fun x => (condRun c K s (andNode C1 C2) x).st.oof = false) ys)
+    (herr : ∀ x ∈ ys, condErr c K s C1 x = none ∧ condErr c K s C2 x = none) :
+    scan (holds c K s (andNode C1 C2)) (condErr c K s (andNode C1 C2)) ys =
+      (ys.filter (fun x => holds c K s C1 x && holds c K s C2 x), none) := by
+  induction ys with
+  | nil => rfl
+  | cons x ys ih =>
+    obtain ⟨e12, k12⟩ := and_cond c C1 C2 hC1 hC2 K s hb x hfin.1 (herr x (by simp)).1 (herr x (by simp)).2
+    rw [scan_cons_none _ _ _ e12, ih (hfin.2 e12) (fun y hy => herr y (by simp [hy])), k12]
+    by_cases hk : (holds c K s C1 x && holds c K s C2 x) = true <;> simp [hk]
+
+/-! ### the condition as a top-level predicate check expression -/
+
+theorem xBool_chn (c : Ctx) (fuel : Nat) (s : St) (C : Node) (v : Item) (h : C.next = none) :
+    xBool c fuel s C v true = xBool c fuel s C v false := by
+  cases fuel with
+  | zero => rfl
+  | succ k => simp [xBool, executeBoolItem, h]
+
+theorem idShift_st (s : St) : ({} : Shift).st s = s := by cases s; simp [Shift.st]
+
+theorem idShift_pres (p : PRes) : ({} : Shift).pres p = p := by
+  cases p; simp [Shift.pres, idShift_st]
+
 end Aux
+
+open Aux
+
+/-! ## 1. the filter step over a path: executor level -/
+
+theorem filterNode_indep {C : Node} (h : Indep sufFlags C = true) : Indep sufFlags (filterNode C) = true := by
+  have e : ({ sufFlags with cur := true } : Flags) = sufFlags := rfl
+  simp [filterNode, Indep, e, h]
+
+theorem kvFree_of_suf {C : Node} (h : Indep sufFlags C = true) : Indep kvFree C = true :=
+  indep_mono C sufFlags kvFree suf_le_kvFree h
+
+/-- **`P ? (C)`, executor level, general form.**  `A` = the run of `P ? (C)` on `v` collecting into `l`, `B` = the
+    run of `P` alone collecting into the empty list, both from the state `s` (never cancelled), `xs'` = the items
+    of `B` after one level of array unwrapping in lax mode, `sc` = the scan of `xs'`: the items on which `C` is
+    true, up to the first item on which `C` raises a non-suppressible error, and that error.  Then `A` returned
+    `l` followed by the kept items; if there was no error `A` ended as `B` ended, otherwise `A` failed with that
+    error; every evaluation of `C` up to there finished within the fuel (`scanFin`). -/
+theorem filter_scan_exec (c : Ctx) (C : Node) (hC : Indep sufFlags C = true) (fuel : Nat) (s : St)
+    (hb : s.budget = none) (P : Node) (hc : s.ignoreSE = true ∨ NoAny P = true) (l : List Item) (v : Item) (u : Bool)
+    (hfuel : (xItem c fuel s (append P (filterNode C)) v (some l) u).st.oof = false) :
+    let A := xItem c fuel s (append P (filterNode C)) v (some l) u
+    let B := xItem c fuel s P v (some []) u
+    let xs' := unwrap1 c.lax (B.found.getD [])
+    let sc := scan (holds c fuel s C) (condErr c fuel s C) xs'
+    A.found = some (l ++ sc.1) ∧
+    (sc.2 = none → A.err = B.err ∧ (A.status = .failed ↔ B.status = .failed)) ∧
+    (∀ e, sc.2 = some e → A.status = .failed ∧ A.err = some e) ∧
+    scanFin (condErr c fuel s C) (fun x => (condRun c fuel s C x).st.oof = false) xs' := by
+  intro A B xs' sc
+  obtain ⟨c1, c2⟩ := C09b.compose_collect c (filterNode C) (filterNode_indep hC) fuel s hb P hc l v u hfuel
+  have hFo : (C09b.feed c (filterNode C) fuel s l (B.found.getD [])).st.oof = false := by
+    by_cases hf : (C09b.feed c (filterNode C) fuel s l (B.found.getD [])).status = .failed
+    · exact C09b.oof_of_stkLe (c1 hf).2.2.2.1 hfuel
+    · have := (c2 hf).2.2.2
+      exact C09b.oof_of_stkLe (by rw [this]; exact stkLe_mix_left _ _) hfuel
+  have hsc := feed_scan (kvFree_of_suf hC) fuel (Nat.le_refl fuel) (B.found.getD []) s l (Rel.refl hb) hFo
+  by_cases hf : (C09b.feed c (filterNode C) fuel s l (B.found.getD [])).status = .failed
+  · obtain ⟨d1, d2, d3, _, _⟩ := c1 hf
+    have hne := hsc.failed.mp hf
+    refine ⟨by rw [← hsc.found]; exact d3, fun h => absurd h hne, fun e he => ⟨d1, ?_⟩, hsc.fin⟩
+    show A.err = some e
+    rw [d2, hsc.err]; exact he
+  · obtain ⟨d1, d2, d3, _⟩ := c2 hf
+    have he : sc.2 = none := by
+      cases h : sc.2 with
+      | none => rfl
+      | some e => exact absurd (hsc.failed.mpr (by show sc.2 ≠ none; rw [h]; simp)) hf
+    refine ⟨by rw [← hsc.found]; exact d1, fun _ => ⟨d2, d3⟩, fun e h => ?_, hsc.fin⟩
+    rw [he] at h; simp at h
+
+/-- **C10, subsequence (executor level).**  If `C` raises no non-suppressible error on the items of `P` (unwrapped
+    one level in lax mode), the run of `P ? (C)` returns the order-preserving subsequence of those items on which
+    `C` is true, and ends as the run of `P` ended. -/
+theorem filter_subsequence_exec (c : Ctx) (C : Node) (hC : Indep sufFlags C = true) (fuel : Nat) (s : St)
+    (hb : s.budget = none) (P : Node) (hc : s.ignoreSE = true ∨ NoAny P = true) (l : List Item) (v : Item) (u : Bool)
+    (hfuel : (xItem c fuel s (append P (filterNode C)) v (some l) u).st.oof = false)
+    (herr : ∀ x ∈ unwrap1 c.lax ((xItem c fuel s P v (some []) u).found.getD []), condErr c fuel s C x = none) :
+    let A := xItem c fuel s (append P (filterNode C)) v (some l) u
+    let B := xItem c fuel s P v (some []) u
+    A.found = some (l ++ (unwrap1 c.lax (B.found.getD [])).filter (holds c fuel s C)) ∧ A.err = B.err ∧
+      (A.status = .failed ↔ B.status = .failed) := by
+  intro A B
+  obtain ⟨h1, h2, _⟩ := filter_scan_exec c C hC fuel s hb P hc l v u hfuel
+  rw [scan_ok _ _ _ herr] at h1 h2
+  exact ⟨h1, (h2 rfl).1, (h2 rfl).2⟩
+
+/-- **C10, hard error (executor level).**  At the first item on which `C` raises a non-suppressible error the run
+    fails with that error, having returned the kept items before it. -/
+theorem filter_first_error_exec (c : Ctx) (C : Node) (hC : Indep sufFlags C = true) (fuel : Nat) (s : St)
+    (hb : s.budget = none) (P : Node) (hc : s.ignoreSE = true ∨ NoAny P = true) (l : List Item) (v : Item) (u : Bool)
+    (hfuel : (xItem c fuel s (append P (filterNode C)) v (some l) u).st.oof = false)
+    (ys zs : List Item) (x : Item) (e : Err)
+    (hsplit : unwrap1 c.lax ((xItem c fuel s P v (some []) u).found.getD []) = ys ++ x :: zs)
+    (hys : ∀ y ∈ ys, condErr c fuel s C y = none) (hx : condErr c fuel s C x = some e) :
+    let A := xItem c fuel s (append P (filterNode C)) v (some l) u
+    A.status = .failed ∧ A.err = some e ∧ A.found = some (l ++ ys.filter (holds c fuel s C)) := by
+  intro A
+  obtain ⟨h1, _, h3, _⟩ := filter_scan_exec c C hC fuel s hb P hc l v u hfuel
+  rw [hsplit, scan_err _ _ ys zs x e hys hx] at h1 h3
+  exact ⟨(h3 e rfl).1, (h3 e rfl).2, h1⟩
+
+/-! ## 1′. the level of `exec.Query` -/
+
+/-- `C` is true on the item `x` in the query `a` on `doc` (with `@` = `x`, `$` = `doc`) -/
+def kept (a : AST) (doc : Item) (o : Opts) (fuel : Nat) (C : Node) (x : Item) : Bool :=
+  holds (mkCtx a doc o) fuel (initSt a doc o) C x
+
+/-- the non-suppressible error of `C` on `x` in the query `a` on `doc` -/
+def hardErr (a : AST) (doc : Item) (o : Opts) (fuel : Nat) (C : Node) (x : Item) : Option Err :=
+  condErr (mkCtx a doc o) fuel (initSt a doc o) C x
+
+theorem not_oof {fuel : Nat} {a : AST} {doc : Item} {o : Opts} (h : queryWith fuel a doc o ≠ .outOfFuel) :
+    (execute fuel a doc o).st.oof = false := by
+  cases h' : (execute fuel a doc o).st.oof with
+  | false => rfl
+  | true => exact absurd (by unfold queryWith guarded; simp [h']) h
+
+theorem not_panicked {fuel : Nat} {a : AST} {doc : Item} {o : Opts} (h1 : queryWith fuel a doc o ≠ .outOfFuel)
+    (h : queryWith fuel a doc o ≠ .panic) : (execute fuel a doc o).st.panicked = false := by
+  have ho := not_oof h1
+  cases h' : (execute fuel a doc o).st.panicked with
+  | false => rfl
+  | true => exact absurd (by unfold queryWith guarded; simp [h', ho]) h
+
+/-- **C10, subsequence.**  If `Query(P, doc)` returns `xs` and `C` raises no non-suppressible error on them (after
+    one level of array unwrapping in lax mode), then `Query(P ? (C), doc)` — when it neither runs out of fuel nor
+    panics — returns the order-preserving subsequence of those items on which `C` is true. -/
+theorem filter_subsequence (fuel : Nat) (a : AST) (P C : Node) (doc : Item) (o : Opts) (xs : List Item)
+    (hC : Indep sufFlags C = true) (ho : o.budget = none) (hchain : a.lax = true ∨ NoAny P = true)
+    (hP : C09b.Ran (execute fuel (C09b.withRoot a P) doc o) xs)
+    (hq1 : queryWith fuel (C09b.withRoot a (append P (filterNode C))) doc o ≠ .outOfFuel)
+    (hq2 : queryWith fuel (C09b.withRoot a (append P (filterNode C))) doc o ≠ .panic)
+    (herr : ∀ x ∈ unwrap1 a.lax xs, hardErr a doc o fuel C x = none) :
+    queryWith fuel (C09b.withRoot a (append P (filterNode C))) doc o =
+      .items ((unwrap1 a.lax xs).filter (kept a doc o fuel C)) := by
+  have hoo := not_oof hq1
+  have hpp := not_panicked hq1 hq2
+  have hA : execute fuel (C09b.withRoot a (append P (filterNode C))) doc o =
+      xItem (mkCtx a doc o) fuel (initSt a doc o) (append P (filterNode C)) doc (some []) a.lax :=
+    C09b.execute_eq _ _ _ _
+  have hB : execute fuel (C09b.withRoot a P) doc o =
+      xItem (mkCtx a doc o) fuel (initSt a doc o) P doc (some []) a.lax := C09b.execute_eq _ _ _ _
+  have hBf : (xItem (mkCtx a doc o) fuel (initSt a doc o) P doc (some []) a.lax).found = some xs := by
+    rw [← hB]; exact hP.found
+  have h := filter_subsequence_exec (mkCtx a doc o) C hC fuel (initSt a doc o) ho P hchain [] doc a.lax
+    (by rw [← hA]; exact hoo) (by rw [hBf]; exact herr)
+  dsimp only at h
+  rw [hBf] at h
+  obtain ⟨h1, h2, _⟩ := h
+  have hBe : (execute fuel (C09b.withRoot a P) doc o).err = none :=
+    err_none_of_good (execute_good _ _ _ _) hP.ok
+  unfold queryWith guarded
+  simp only [hoo, hpp]
+  rw [hA, h1, h2, ← hB, hBe]
+  rfl
+
+/-- **C10, hard error.**  At the first item on which `C` raises a non-suppressible error, `Query(P ? (C), doc)` fails
+    with that error. -/
+theorem filter_first_error (fuel : Nat) (a : AST) (P C : Node) (doc : Item) (o : Opts) (xs ys zs : List Item)
+    (x : Item) (e : Err)
+    (hC : Indep sufFlags C = true) (ho : o.budget = none) (hchain : a.lax = true ∨ NoAny P = true)
+    (hP : C09b.Ran (execute fuel (C09b.withRoot a P) doc o) xs)
+    (hq1 : queryWith fuel (C09b.withRoot a (append P (filterNode C))) doc o ≠ .outOfFuel)
+    (hq2 : queryWith fuel (C09b.withRoot a (append P (filterNode C))) doc o ≠ .panic)
+    (hsplit : unwrap1 a.lax xs = ys ++ x :: zs)
+    (hys : ∀ y ∈ ys, hardErr a doc o fuel C y = none) (hx : hardErr a doc o fuel C x = some e) :
+    queryWith fuel (C09b.withRoot a (append P (filterNode C))) doc o = .error e := by
+  have hoo := not_oof hq1
+  have hpp := not_panicked hq1 hq2
+  have hA : execute fuel (C09b.withRoot a (append P (filterNode C))) doc o =
+      xItem (mkCtx a doc o) fuel (initSt a doc o) (append P (filterNode C)) doc (some []) a.lax :=
+    C09b.execute_eq _ _ _ _
+  have hB : execute fuel (C09b.withRoot a P) doc o =
+      xItem (mkCtx a doc o) fuel (initSt a doc o) P doc (some []) a.lax := C09b.execute_eq _ _ _ _
+  have hBf : (xItem (mkCtx a doc o) fuel (initSt a doc o) P doc (some []) a.lax).found = some xs := by
+    rw [← hB]; exact hP.found
+  have h := filter_first_error_exec (mkCtx a doc o) C hC fuel (initSt a doc o) ho P hchain [] doc a.lax
+    (by rw [← hA]; exact hoo) ys zs x e (by rw [hBf]; exact hsplit) hys hx
+  obtain ⟨_, h2, _⟩ := h
+  unfold queryWith guarded
+  simp only [hoo, hpp]
+  rw [hA, h2]
+  rfl
+
+/-- **C10, no item altered or duplicated**: the result is a sublist of the (unwrapped) items of `P`, and contains
+    exactly those on which `C` is true -/
+theorem filter_no_duplication (fuel : Nat) (a : AST) (P C : Node) (doc : Item) (o : Opts) (xs : List Item)
+    (hC : Indep sufFlags C = true) (ho : o.budget = none) (hchain : a.lax = true ∨ NoAny P = true)
+    (hP : C09b.Ran (execute fuel (C09b.withRoot a P) doc o) xs)
+    (hq1 : queryWith fuel (C09b.withRoot a (append P (filterNode C))) doc o ≠ .outOfFuel)
+    (hq2 : queryWith fuel (C09b.withRoot a (append P (filterNode C))) doc o ≠ .panic)
+    (herr : ∀ x ∈ unwrap1 a.lax xs, hardErr a doc o fuel C x = none) :
+    ∃ ys, queryWith fuel (C09b.withRoot a (append P (filterNode C))) doc o = .items ys ∧
+      ys.Sublist (unwrap1 a.lax xs) ∧ ∀ y, y ∈ ys ↔ (y ∈ unwrap1 a.lax xs ∧ kept a doc o fuel C y = true) :=
+  ⟨_, filter_subsequence fuel a P C doc o xs hC ho hchain hP hq1 hq2 herr, List.filter_sublist,
+    fun _ => List.mem_filter⟩
+
+/-! ## 2. an item is kept exactly when the condition, as a predicate check expression over the item, is true -/
+
+/-- the nodes `exec` evaluates as predicates (boolean operators, comparisons, `starts with`, `exists`, `!`,
+    `is unknown`, `like_regex`) -/
+def isBoolNode : Node → Bool
+  | .binary op _ _ _ => isBoolBinOp op
+  | .unary .not _ _ | .unary .isUnknown _ _ | .unary .exists _ _ => true
+  | .regex _ _ _ _ => true
+  | _ => false
+
+/-- `C` does not mention `$` (everything else — `@`, variables, nested filters, methods — is allowed) -/
+def noRoot : Flags := ⟨false, true, true, true⟩
+
+/-- what `Query` reports for a predicate check expression whose evaluation ended as `p` -/
+def checkOutcome (p : PRes) : Outcome :=
+  if p.st.oof then .outOfFuel else if p.st.panicked then .panic else
+  match p.err with
+  | some e => .error e
+  | none => .items [predItem p.out]
+
+theorem dispatch_bool (c : Ctx) (item : ItemK) (bool : BoolK) (any : AnyK) (s : St) (C : Node) (v : Item) (f : Found)
+    (u : Bool) (hB : isBoolNode C = true) :
+    dispatch c item bool any s C v f u = appendBoolResult c item C.next f (bool s C v true) := by
+  cases C with
+  | binary op l r nx => simp only [isBoolNode] at hB; simp [dispatch, execBinaryNode, hB, Node.next]
+  | unary op x nx => cases op <;> simp [isBoolNode] at hB <;> simp [dispatch, execUnaryNode, Node.next]
+  | regex x pt fl nx => simp [dispatch, Node.next]
+  | _ => simp [isBoolNode] at hB
+
+/-- the run of the predicate check path `C` on the document `x` evaluates `C` exactly as the filter `? (C)` does
+    on the item `x` — at the top level `@` denotes the document, as does `$`, so `C` itself is the predicate
+    check expression over the item (`C` without `$`: inside the filter `$` is the original document) -/
+theorem execute_check (fuel : Nat) (a : AST) (C : Node) (doc x : Item) (o : Opts) (hC : Indep noRoot C = true)
+    (hnx : C.next = none) (hB : isBoolNode C = true) (ho : o.budget = none) :
+    execute (fuel + 1) ⟨C, a.lax, true⟩ x o =
+      appendBoolResult (mkCtx ⟨C, a.lax, true⟩ x o) (xItem (mkCtx ⟨C, a.lax, true⟩ x o) fuel) none (some [])
+        (condRun (mkCtx a doc o) fuel (initSt a doc o) C x) := by
+  rw [C09b.execute_eq]
+  simp only [xItem]
+  rw [poll_of_budget_none (by simpa [initSt] using ho)]
+  dsimp only
+  rw [dispatch_bool _ _ _ _ _ _ _ _ _ hB, hnx, xBool_chn _ _ _ _ _ hnx]
+  have hfr := xBool_frame (some x) (mkCtx a doc o) fuel {} { initSt a doc o with current := x } C x false hC
+  rw [idShift_st, idShift_pres] at hfr
+  have e1 : setRoot (some x) (mkCtx a doc o) = mkCtx ⟨C, a.lax, true⟩ x o := rfl
+  have e2 : ({ initSt a doc o with current := x } : St) = initSt ⟨C, a.lax, true⟩ x o := rfl
+  rw [e1, e2] at hfr
+  rw [hfr]
+  rfl
+
+/-- **the predicate check query over the item reports the value of the condition on the item** -/
+theorem predicate_check_eq (fuel : Nat) (a : AST) (C : Node) (doc x : Item) (o : Opts) (hC : Indep noRoot C = true)
+    (hnx : C.next = none) (hB : isBoolNode C = true) (ho : o.budget = none) :
+    queryWith (fuel + 1) ⟨C, a.lax, true⟩ x o = checkOutcome (condRun (mkCtx a doc o) fuel (initSt a doc o) C x) := by
+  unfold queryWith
+  rw [execute_check fuel a C doc x o hC hnx hB ho]
+  unfold checkOutcome guarded appendBoolResult
+  generalize condRun (mkCtx a doc o) fuel (initSt a doc o) C x = p
+  obtain ⟨ps, po, pe⟩ := p
+  cases pe <;> simp [executeNextItem, Found.append]
+
+/-- **C10: kept iff the predicate check is true.**  The filter `? (C)` of the query `a` on `doc` keeps the item `x`
+    exactly when the predicate check expression `C` (same mode), evaluated on the document `x`, returns `true`.
+    Side conditions: `C` has no `$`; its evaluation on `x` finishes within the fuel and does not panic. -/
+theorem kept_iff_predicate_check (fuel : Nat) (a : AST) (C : Node) (doc x : Item) (o : Opts)
+    (hC : Indep noRoot C = true) (hnx : C.next = none) (hB : isBoolNode C = true) (ho : o.budget = none)
+    (hfin : (condRun (mkCtx a doc o) fuel (initSt a doc o) C x).st.oof = false)
+    (hpan : (condRun (mkCtx a doc o) fuel (initSt a doc o) C x).st.panicked = false) :
+    kept a doc o fuel C x = true ↔ queryWith (fuel + 1) ⟨C, a.lax, true⟩ x o = .items [.bool true] := by
+  rw [predicate_check_eq fuel a C doc x o hC hnx hB ho]
+  have hg : GoodP _ (condRun (mkCtx a doc o) fuel (initSt a doc o) C x) := xBool_good _ _ _ _ _ _
+  unfold kept holds checkOutcome
+  simp only [hfin, hpan]
+  generalize condRun (mkCtx a doc o) fuel (initSt a doc o) C x = p at hg
+  obtain ⟨ps, po, pe⟩ := p
+  cases pe with
+  | some e =>
+    have := hg.errUnknown (by simp)
+    simp only at this
+    subst this
+    simp
+  | none => cases po <;> simp [predItem]
+
+/-- the same with `exec.Match` (`jsonb_path_match`) -/
+theorem kept_iff_match (fuel : Nat) (a : AST) (C : Node) (doc x : Item) (o : Opts)
+    (hC : Indep noRoot C = true) (hnx : C.next = none) (hB : isBoolNode C = true) (ho : o.budget = none)
+    (hfin : (condRun (mkCtx a doc o) fuel (initSt a doc o) C x).st.oof = false)
+    (hpan : (condRun (mkCtx a doc o) fuel (initSt a doc o) C x).st.panicked = false) :
+    kept a doc o fuel C x = true ↔ matchWith (fuel + 1) ⟨C, a.lax, true⟩ x o = .bool true := by
+  have hg : GoodP _ (condRun (mkCtx a doc o) fuel (initSt a doc o) C x) := xBool_good _ _ _ _ _ _
+  unfold matchWith
+  rw [execute_check fuel a C doc x o hC hnx hB ho]
+  unfold kept holds guarded appendBoolResult
+  generalize condRun (mkCtx a doc o) fuel (initSt a doc o) C x = p at hg hfin hpan
+  obtain ⟨ps, po, pe⟩ := p
+  simp only at hfin hpan
+  cases pe with
+  | some e =>
+    have := hg.errUnknown (by simp)
+    simp only at this
+    subst this
+    simp [hfin, hpan]
+  | none => cases po <;> simp [hfin, hpan, executeNextItem, Found.append, predItem]
+
+/-! ### the rewriting `@` ↦ `$` on ASTs, and the simulation showing it changes nothing where `@` = `$` -/
+
+/-- `@` becomes `$` -/
+def subConst : Const → Const
+  | .current => .root
+  | k => k
+
+mutual
+  /-- replace every `@` that is not inside a nested filter condition by `$` -/
+  def atToRoot : Node → Node
+    | .const k nx => .const (subConst k) (atToRootO nx)
+    | .method m nx => .method m (atToRootO nx)
+    | .str t nx => .str t (atToRootO nx)
+    | .var t nx => .var t (atToRootO nx)
+    | .key t nx => .key t (atToRootO nx)
+    | .numeric x nx => .numeric x (atToRootO nx)
+    | .integer i nx => .integer i (atToRootO nx)
+    | .any a b nx => .any a b (atToRootO nx)
+    | .binary op l r nx => .binary op (atToRootO l) (atToRootO r) (atToRootO nx)
+    | .unary .filter x nx => .unary .filter x (atToRootO nx)
+    | .unary op x nx => .unary op (atToRootO x) (atToRootO nx)
+    | .regex x p f nx => .regex (atToRoot x) p f (atToRootO nx)
+    | .arrayIndex subs nx => .arrayIndex (atToRootL subs) (atToRootO nx)
+  def atToRootO : Option Node → Option Node
+    | none => none
+    | some n => some (atToRoot n)
+  def atToRootL : List Node → List Node
+    | [] => []
+    | n :: ns => atToRoot n :: atToRootL ns
+end
+
+/-- the operand of a unary node: a filter condition binds its own `@` and is left alone -/
+def subOperand : UnOp → Option Node → Option Node
+  | .filter, x => x
+  | _, x => atToRootO x
+
+theorem atToRoot_unary (op : UnOp) (x nx : Option Node) :
+    atToRoot (.unary op x nx) = .unary op (subOperand op x) (atToRootO nx) := by
+  cases op <;> simp [atToRoot, subOperand]
+
+namespace Aux
+
+@[simp] theorem atToRootO_none : atToRootO none = none := by simp [atToRootO]
+@[simp] theorem atToRootO_some (n : Node) : atToRootO (some n) = some (atToRoot n) := by simp [atToRootO]
+@[simp] theorem atToRootO_isSome (nx : Option Node) : (atToRootO nx).isSome = nx.isSome := by cases nx <;> simp
+@[simp] theorem atToRootO_isNone (nx : Option Node) : (atToRootO nx).isNone = nx.isNone := by cases nx <;> simp
+
+theorem atToRoot_next (n : Node) : (atToRoot n).next = atToRootO n.next := by
+  cases n <;> simp [atToRoot, atToRoot_unary, Node.next]
+
+section sub
+variable (c : Ctx)
+
+/-- what the per-function lemmas assume about the recursive calls -/
+structure SubHyp (item : ItemK) (bool : BoolK) (any : AnyK) : Prop where
+  gI : GoodI item
+  gB : GoodB bool
+  gA : GoodA any
+  frI : FrameI none item item
+  sI : ∀ s n v f u, s.current = c.root → Indep kvFree n = true → item s (atToRoot n) v f u = item s n v f u
+  sB : ∀ s n v b, s.current = c.root → Indep kvFree n = true → bool s (atToRoot n) v b = bool s n v b
+  sA : ∀ s node vs f l a b i u, s.current = c.root → IndepO kvFree node = true →
+    any s (atToRootO node) vs f l a b i u = any s node vs f l a b i u
+
+variable {c} {item : ItemK} {bool : BoolK} {any : AnyK}
+
+theorem cur_good {s : St} {f : Found} {r : Res} (h : Good s f r) (hs : s.current = c.root) : r.st.current = c.root := by
+  have := h.ctx; simp [St.ctxEq] at this; rw [this.1, hs]
+
+theorem cur_goodP {s : St} {p : PRes} (h : GoodP s p) (hs : s.current = c.root) : p.st.current = c.root := by
+  have := h.ctx; simp [St.ctxEq] at this; rw [this.1, hs]
+
+theorem executeItem_sub (H : SubHyp c item bool any) (s : St) (n : Node) (v : Item) (f : Found)
+    (hs : s.current = c.root) (hn : Indep kvFree n = true) :
+    executeItem c item s (atToRoot n) v f = executeItem c item s n v f := H.sI _ _ _ _ _ hs hn
+
+theorem executeNextItem_sub (H : SubHyp c item bool any) (s : St) (nx : Option Node) (v : Item) (f : Found)
+    (hs : s.current = c.root) (hn : IndepO kvFree nx = true) :
+    executeNextItem c item s (atToRootO nx) v f = executeNextItem c item s nx v f := by
+  cases nx with
+  | none => rfl
+  | some n => simp only [atToRootO_some, executeNextItem]; exact executeItem_sub H s n v f hs (by simpa using hn)
+
+theorem execLiteral_sub (H : SubHyp c item bool any) (s : St) (nx : Option Node) (v : Item) (f : Found)
+    (hs : s.current = c.root) (hn : IndepO kvFree nx = true) :
+    execLiteral c item s (atToRootO nx) v f = execLiteral c item s nx v f := by
+  unfold execLiteral
+  rw [executeNextItem_sub H s nx v f hs hn, atToRootO_isNone]
+
+theorem withBaseObject_congr (s : St) (a : Nat) (i : Int) (k k' : St → Res)
+    (h : ∀ s' : St, s'.current = s.current → k s' = k' s') : withBaseObject s a i k = withBaseObject s a i k' := by
+  unfold withBaseObject
+  have := h { s with baseAddr := a, baseId := i } rfl
+  simp only [this]
+
+theorem execVariable_sub (H : SubHyp c item bool any) (s : St) (name : List Char) (nx : Option Node) (f : Found)
+    (hs : s.current = c.root) (hn : IndepO kvFree nx = true) :
+    execVariable c item s name (atToRootO nx) f = execVariable c item s name nx f := by
+  unfold execVariable
+  split
+  · exact withBaseObject_congr _ _ _ _ _ (fun s' hs' => executeNextItem_sub H s' nx _ f (hs'.trans hs) hn)
+  · rfl
+
+/-- `$` followed by a chain without `.keyvalue()` is `@` followed by that chain when `@` is the root -/
+theorem root_eq_current (H : SubHyp c item bool any) (s : St) (nx : Option Node) (f : Found)
+    (hs : s.current = c.root) (hn : IndepO kvFree nx = true) :
+    withBaseObject s (c.addrOf c.root) 0 (fun s' => executeNextItem c item s' nx c.root f) =
+      executeNextItem c item s nx s.current f := by
+  rw [hs]
+  unfold withBaseObject
+  cases nx with
+  | none => simp only [executeNextItem]
+  | some n =>
+    simp only [executeNextItem, executeItem]
+    have hfl : ({ base := some (c.addrOf c.root, 0) } : Shift).flags none = kvFree := rfl
+    have hfr := H.frI { base := some (c.addrOf c.root, 0) } s n c.root f c.lax (by rw [hfl]; simpa using hn)
+    have e1 : ({ base := some (c.addrOf c.root, 0) } : Shift).st s = { s with baseAddr := c.addrOf c.root, baseId := 0 } := by
+      cases s; simp [Shift.st]
+    have e2 : ({ base := some (c.addrOf c.root, 0) } : Shift).fd f = f := by cases f <;> simp [Shift.fd]
+    rw [e1, e2] at hfr
+    rw [hfr]
+    have hg := (H.gI s n c.root f c.lax).ctx
+    simp [St.ctxEq] at hg
+    generalize item s n c.root f c.lax = r at hg
+    obtain ⟨rs, rf, rst, re⟩ := r
+    simp only [Shift.res, Res.mk.injEq, and_true]
+    have e3 : ({ base := some (c.addrOf c.root, 0) } : Shift).fd rf = rf := by cases rf <;> simp [Shift.fd]
+    refine ⟨?_, e3⟩
+    cases rs; simp [Shift.st] at hg ⊢; grind
+
+theorem anySelf_sub (H : SubHyp c item bool any) (s : St) (n : Node) (xs : List Item) (f : Found)
+    (hs : s.current = c.root) (hn : Indep kvFree n = true) :
+    any s (some (atToRoot n)) xs f 1 1 1 false false = any s (some n) xs f 1 1 1 false false := by
+  have := H.sA s (some n) xs f 1 1 1 false false hs (by simpa using hn)
+  simpa using this
+
+theorem execKeyNode_sub (H : SubHyp c item bool any) (s : St) (n : Node) (key : List Char) (nx : Option Node)
+    (v : Item) (f : Found) (u : Bool) (hs : s.current = c.root) (hn : Indep kvFree n = true)
+    (hnx : IndepO kvFree nx = true) :
+    execKeyNode c item any s (atToRoot n) key (atToRootO nx) v f u = execKeyNode c item any s n key nx v f u := by
+  unfold execKeyNode
+  cases v with
+  | obj kvs =>
+    simp only
+    split
+    · exact executeNextItem_sub H s nx _ f hs hnx
+    · rfl
+  | arr xs => simp only; rw [anySelf_sub H s n _ f hs hn]
+  | _ => rfl
+
+theorem execAnyKey_sub (H : SubHyp c item bool any) (s : St) (n : Node) (nx : Option Node)
+    (v : Item) (f : Found) (u : Bool) (hs : s.current = c.root) (hn : Indep kvFree n = true)
+    (hnx : IndepO kvFree nx = true) :
+    execAnyKey c any s (atToRoot n) (atToRootO nx) v f u = execAnyKey c any s n nx v f u := by
+  unfold execAnyKey unwrapTargetArray
+  cases v with
+  | obj kvs => exact H.sA s nx _ f 1 1 1 false c.lax hs hnx
+  | arr xs => simp only; rw [anySelf_sub H s n _ f hs hn]
+  | _ => rfl
+
+theorem execAnyArray_sub (H : SubHyp c item bool any) (s : St) (nx : Option Node)
+    (v : Item) (f : Found) (hs : s.current = c.root) (hnx : IndepO kvFree nx = true) :
+    execAnyArray c item any s (atToRootO nx) v f = execAnyArray c item any s nx v f := by
+  unfold execAnyArray
+  cases v with
+  | arr xs => exact H.sA s nx _ f 1 1 1 false c.lax hs hnx
+  | _ => simp only [executeNextItem_sub H s nx _ f hs hnx]
+
+theorem execLastConst_sub (H : SubHyp c item bool any) (s : St) (nx : Option Node) (f : Found)
+    (hs : s.current = c.root) (hnx : IndepO kvFree nx = true) :
+    execLastConst c item s (atToRootO nx) f = execLastConst c item s nx f := by
+  unfold execLastConst
+  rw [executeNextItem_sub H s nx _ f hs hnx, atToRootO_isNone]
+
+theorem execConstNode_sub (H : SubHyp c item bool any) (s : St) (n : Node) (k : Const) (nx : Option Node)
+    (v : Item) (f : Found) (u : Bool) (hs : s.current = c.root) (hn : Indep kvFree n = true)
+    (hnx : IndepO kvFree nx = true) :
+    execConstNode c item any s (atToRoot n) (subConst k) (atToRootO nx) v f u =
+      execConstNode c item any s n k nx v f u := by
+  cases k <;> simp only [execConstNode, subConst]
+  · exact withBaseObject_congr _ _ _ _ _ (fun s' hs' => executeNextItem_sub H s' nx _ f (hs'.trans hs) hnx)
+  · rw [← root_eq_current H s nx f hs hnx]
+    exact withBaseObject_congr _ _ _ _ _ (fun s' hs' => executeNextItem_sub H s' nx _ f (hs'.trans hs) hnx)
+  · exact execLastConst_sub H s nx f hs hnx
+  · exact execAnyArray_sub H s nx v f hs hnx
+  · exact execAnyKey_sub H s n nx v f u hs hn hnx
+  · exact execLiteral_sub H s nx _ f hs hnx
+  · exact execLiteral_sub H s nx _ f hs hnx
+  · exact execLiteral_sub H s nx _ f hs hnx
+
+theorem optUnwrapResult_sub (H : SubHyp c item bool any) (s : St) (n : Node) (v : Item) (u : Bool) (f : List Item)
+    (hs : s.current = c.root) (hn : Indep kvFree n = true) :
+    optUnwrapResult c item s (atToRoot n) v u f = optUnwrapResult c item s n v u f := by
+  unfold optUnwrapResult
+  simp only [executeItem_sub H s n v _ hs hn]
+
+theorem optUnwrapResultSilent_sub (H : SubHyp c item bool any) (s : St) (n : Node) (v : Item) (u : Bool) (f : Found)
+    (hs : s.current = c.root) (hn : Indep kvFree n = true) :
+    optUnwrapResultSilent c item s (atToRoot n) v u f = optUnwrapResultSilent c item s n v u f := by
+  unfold optUnwrapResultSilent
+  cases f with
+  | some l => simp only [optUnwrapResult_sub H { s with verbose := false } n v u l hs hn]
+  | none => simp only [executeItem_sub H { s with verbose := false } n v none hs hn]
+
+theorem executePredicate_sub (H : SubHyp c item bool any) (s : St) (left : Node) (right : Option Node) (v : Item)
+    (uw : Bool) (cb : Item → Item → CbOut) (hs : s.current = c.root) (hl : Indep kvFree left = true)
+    (hr : IndepO kvFree right = true) :
+    executePredicate c item s (atToRoot left) (atToRootO right) v uw cb = executePredicate c item s left right v uw cb := by
+  unfold executePredicate
+  simp only [optUnwrapResultSilent_sub H s left v true (some []) hs hl]
+  cases right with
+  | none => rfl
+  | some rn =>
+    have hg := optUnwrapResultSilent_good c H.gI s left v true (some [])
+    simp only [atToRootO_some,
+      optUnwrapResultSilent_sub H _ rn v uw (some []) (cur_good hg.1 hs) (by simpa using hr)]
+
+theorem executeBinaryBoolItem_sub (H : SubHyp c item bool any) (s : St) (op : BinOp) (l r : Option Node) (v : Item)
+    (hs : s.current = c.root) (hl : IndepO kvFree l = true) (hr : IndepO kvFree r = true) :
+    executeBinaryBoolItem c item bool s op (atToRootO l) (atToRootO r) v = executeBinaryBoolItem c item bool s op l r v := by
+  cases l with
+  | none => rfl
+  | some ln =>
+    have hl' : Indep kvFree ln = true := by simpa using hl
+    have hB1 := H.sB s ln v false hs hl'
+    have hcur := cur_goodP (c := c) (H.gB s ln v false) hs
+    have hpred : ∀ uw cb, executePredicate c item s (atToRoot ln) (atToRootO r) v uw cb =
+        executePredicate c item s ln r v uw cb := fun uw cb => executePredicate_sub H s ln r v uw cb hs hl' hr
+    cases op <;> simp only [executeBinaryBoolItem, atToRootO_some, hpred]
+    · cases r with
+      | none => rfl
+      | some rn => simp only [atToRootO_some, hB1, H.sB _ rn v false hcur (by simpa using hr)]
+    · cases r with
+      | none => rfl
+      | some rn => simp only [atToRootO_some, hB1, H.sB _ rn v false hcur (by simpa using hr)]
+
+theorem executeUnaryBoolItem_sub (H : SubHyp c item bool any) (s : St) (op : UnOp) (x : Option Node) (v : Item)
+    (hs : s.current = c.root) (hx : IndepO kvFree x = true) :
+    executeUnaryBoolItem c item bool s op (subOperand op x) v =
+      executeUnaryBoolItem c item bool s op x v := by
+  cases x with
+  | none => cases op <;> rfl
+  | some xn =>
+    have hx' : Indep kvFree xn = true := by simpa using hx
+    cases op <;> simp only [executeUnaryBoolItem, subOperand, atToRootO_some, H.sB s xn v false hs hx',
+      optUnwrapResultSilent_sub H s xn v false _ hs hx']
+
+theorem executeBoolItem_sub (H : SubHyp c item bool any) (s : St) (n : Node) (v : Item) (chn : Bool)
+    (hs : s.current = c.root) (hn : Indep kvFree n = true) :
+    executeBoolItem c item bool s (atToRoot n) v chn = executeBoolItem c item bool s n v chn := by
+  unfold executeBoolItem
+  rw [atToRoot_next, atToRootO_isSome]
+  cases n with
+  | binary op l r nx =>
+    simp only [Indep, Bool.and_eq_true] at hn
+    simp only [atToRoot, executeBinaryBoolItem_sub H s op l r v hs hn.1.1 hn.1.2]
+  | unary op x nx =>
+    have hx : IndepO kvFree x = true := by
+      have e : ({ kvFree with cur := true } : Flags) = kvFree := rfl
+      simp only [Indep, Bool.and_eq_true, e] at hn
+      cases op <;> exact hn.1
+    simp only [atToRoot_unary, executeUnaryBoolItem_sub H s op x v hs hx]
+  | regex x pt fl nx =>
+    simp only [Indep, Bool.and_eq_true] at hn
+    have := executePredicate_sub H s x none v false (fun l _ => likeRegex c pt fl l) hs hn.1 (by simp)
+    simp only [atToRootO_none] at this
+    simp only [atToRoot, this]
+  | _ => simp only [atToRoot]
+
+theorem appendBoolResult_sub (H : SubHyp c item bool any) (nx : Option Node) (f : Found) (p : PRes)
+    (hp : p.st.current = c.root) (hnx : IndepO kvFree nx = true) :
+    appendBoolResult c item (atToRootO nx) f p = appendBoolResult c item nx f p := by
+  unfold appendBoolResult
+  simp only [atToRootO_isNone, executeNextItem_sub H p.st nx _ f hp hnx]
+
+theorem foldl_sub {α β : Type} (Inv : β → Prop) (step step' : β → α → β) (xs : List α) (b : β) (h0 : Inv b)
+    (hstep : ∀ a x, Inv a → Inv (step a x)) (heq : ∀ a x, Inv a → step' a x = step a x) :
+    xs.foldl step' b = xs.foldl step b := by
+  induction xs generalizing b with
+  | nil => rfl
+  | cons x xs ih => simp only [List.foldl_cons]; rw [heq b x h0]; exact ih _ (hstep b x h0)
+
+theorem unaryStep_sub (H : SubHyp c item bool any) (cb : Num.UCallback) (nx : Option Node) (s : St) (f : Found)
+    (a : UAcc) (v : Item) (hs : s.current = c.root) (hinv : UInv s f a) (hnx : IndepO kvFree nx = true) :
+    unaryStep c item cb (atToRootO nx) a v = unaryStep c item cb nx a v := by
+  unfold unaryStep
+  cases hr : a.ret with
+  | some r => rfl
+  | none =>
+    have hm := (hinv.2 hr).1.1
+    simp [St.ctxEq] at hm
+    have hcur : a.st.current = c.root := by rw [hm.1, hs]
+    simp only [atToRootO_isNone, executeNextItem_sub H a.st nx _ a.found hcur hnx]
+
+theorem execUnaryMathExpr_sub (H : SubHyp c item bool any) (s : St) (operand nx : Option Node) (v : Item)
+    (cb : Num.UCallback) (f : Found) (hs : s.current = c.root) (hx : IndepO kvFree operand = true)
+    (hnx : IndepO kvFree nx = true) :
+    execUnaryMathExpr c item s (atToRootO operand) (atToRootO nx) v cb f = execUnaryMathExpr c item s operand nx v cb f := by
+  unfold execUnaryMathExpr
+  cases operand with
+  | none => rfl
+  | some x =>
+    have hx' : Indep kvFree x = true := by simpa using hx
+    simp only [atToRootO_some, optUnwrapResult_sub H s x v true [] hs hx']
+    by_cases hf : (optUnwrapResult c item s x v true []).status = .failed
+    · simp only [hf, if_true]
+    · simp only [hf, if_false]
+      have hr := optUnwrapResult_good c H.gI s x v true []
+      have hm := Good.mid hr hf
+      rw [foldl_sub (UInv s f) (unaryStep c item cb nx) (unaryStep c item cb (atToRootO nx)) _ _
+        ⟨fun r hr => by simp at hr, fun _ => ⟨hm, Shape.refl f⟩⟩
+        (fun a v h => unaryStep_inv c H.gI cb nx s f a v h)
+        (fun a v h => unaryStep_sub H cb nx s f a v hs h hnx)]
+
+theorem execBinaryMathExpr_sub (H : SubHyp c item bool any) (s : St) (op : BinOp) (l r nx : Option Node) (v : Item)
+    (f : Found) (hs : s.current = c.root) (hl : IndepO kvFree l = true) (hr : IndepO kvFree r = true)
+    (hnx : IndepO kvFree nx = true) :
+    execBinaryMathExpr c item s op (atToRootO l) (atToRootO r) (atToRootO nx) v f =
+      execBinaryMathExpr c item s op l r nx v f := by
+  cases l with
+  | none => cases r <;> rfl
+  | some ln =>
+    cases r with
+    | none => rfl
+    | some rn =>
+      have hl' : Indep kvFree ln = true := by simpa using hl
+      have hr' : Indep kvFree rn = true := by simpa using hr
+      have g1 := optUnwrapResult_good c H.gI s ln v true []
+      have c1 := cur_good (c := c) g1 hs
+      have g2 := optUnwrapResult_good c H.gI (optUnwrapResult c item s ln v true []).st rn v true []
+      have c2 := cur_good (c := c) g2 c1
+      simp only [execBinaryMathExpr, atToRootO_some, atToRootO_isNone, optUnwrapResult_sub H s ln v true [] hs hl',
+        optUnwrapResult_sub H _ rn v true [] c1 hr', executeNextItem_sub H _ nx _ f c2 hnx]
+
+theorem execMethodSize_sub (H : SubHyp c item bool any) (s : St) (nx : Option Node) (v : Item) (f : Found)
+    (hs : s.current = c.root) (hnx : IndepO kvFree nx = true) :
+    execMethodSize c item s (atToRootO nx) v f = execMethodSize c item s nx v f := by
+  unfold execMethodSize
+  simp only [executeNextItem_sub H s nx _ f hs hnx]
+
+theorem getNodeInt32_sub (n : Node) : getNodeInt32 (atToRoot n) = getNodeInt32 n := by
+  cases n <;> simp [atToRoot, atToRoot_unary, getNodeInt32]
+
+theorem executeDecimalMethod_sub (l r : Option Node) (num : F64) :
+    executeDecimalMethod (atToRootO l) (atToRootO r) num = executeDecimalMethod l r num := by
+  cases l with
+  | none => rfl
+  | some ln => cases r <;> simp only [executeDecimalMethod, atToRootO_some, atToRootO_none, getNodeInt32_sub]
+
+theorem convNumber_sub (l r : Option Node) (v : Item) :
+    convNumber (some (atToRootO l, atToRootO r)) v = convNumber (some (l, r)) v := by
+  unfold convNumber
+  simp only [executeDecimalMethod_sub]
+
+theorem execConvMethod_sub (H : SubHyp c item bool any) (s : St) (n : Node) (nx : Option Node) (v : Item) (f : Found)
+    (u : Bool) (conv : Item → Conv) (hs : s.current = c.root) (hn : Indep kvFree n = true)
+    (hnx : IndepO kvFree nx = true) :
+    execConvMethod c item any s (atToRoot n) (atToRootO nx) v f u conv = execConvMethod c item any s n nx v f u conv := by
+  unfold execConvMethod unwrapTargetArray
+  cases v <;> simp only [anySelf_sub H s n _ f hs hn, executeNextItem_sub H s nx _ f hs hnx]
+
+theorem execMethodNode_sub (H : SubHyp c item bool any) (s : St) (n : Node) (m : Method) (nx : Option Node) (v : Item)
+    (f : Found) (u : Bool) (hs : s.current = c.root) (hn : Indep kvFree n = true) (hm : m ≠ .keyvalue)
+    (hnx : IndepO kvFree nx = true) :
+    execMethodNode c item any s (atToRoot n) m (atToRootO nx) v f u = execMethodNode c item any s n m nx v f u := by
+  cases m <;> simp only [execMethodNode, execConvMethod_sub H s n nx v f u _ hs hn hnx,
+    executeNextItem_sub H s nx _ f hs hnx, execMethodSize_sub H s nx v f hs hnx]
+  exact absurd rfl hm
+
+theorem parseDateTime_sub (op : UnOp) (src : List Char) (arg : Option Node) :
+    parseDateTime c op src (atToRootO arg) = parseDateTime c op src arg := by
+  unfold parseDateTime
+  cases arg <;> simp only [atToRootO_some, atToRootO_none, getNodeInt32_sub]
+
+theorem executeDateTimeMethod_sub (H : SubHyp c item bool any) (s : St) (op : UnOp) (arg nx : Option Node) (v : Item)
+    (f : Found) (hs : s.current = c.root) (hnx : IndepO kvFree nx = true) :
+    executeDateTimeMethod c item s op (atToRootO arg) (atToRootO nx) v f =
+      executeDateTimeMethod c item s op arg nx v f := by
+  unfold executeDateTimeMethod
+  cases v <;> simp only [atToRootO_isSome, atToRootO_isNone, parseDateTime_sub, executeNextItem_sub H s nx _ f hs hnx]
+
+theorem cur_of_AInv {s : St} {f : Found} {a : AAcc} (h : AInv s f a) (hr : a.ret = none) (hs : s.current = c.root) :
+    a.st.current = c.root := by
+  have := (h.2 hr).1.1
+  simp [St.ctxEq, restoreIgn] at this
+  rw [this.1, hs]
+
+theorem anyVisit_sub (H : SubHyp c item bool any) (node : Option Node) (level first last : Nat) (ign un : Bool)
+    (a : AAcc) (v : Item) (hcur : a.st.current = c.root) (hn : IndepO kvFree node = true) :
+    anyVisit item (atToRootO node) level first last ign un a v = anyVisit item node level first last ign un a v := by
+  cases node with
+  | none => rfl
+  | some n =>
+    have hst : (if ign = true then { a.st with ignoreSE := true } else a.st).current = c.root := by
+      cases ign <;> exact hcur
+    simp only [anyVisit, atToRootO_some, H.sI _ n v a.found un hst (by simpa using hn)]
+
+theorem anyDescend_sub (H : SubHyp c item bool any) (node : Option Node) (level first last : Nat) (ign un : Bool)
+    (a : AAcc) (v : Item) (hcur : a.st.current = c.root) (hn : IndepO kvFree node = true) :
+    anyDescend any (atToRootO node) level first last ign un a v = anyDescend any node level first last ign un a v := by
+  unfold anyDescend
+  simp only [H.sA a.st node _ a.found (level + 1) first last ign un hcur hn]
+
+theorem anyStep_sub (H : SubHyp c item bool any) (node : Option Node) (level first last : Nat) (ign un : Bool)
+    (s : St) (f : Found) (a : AAcc) (v : Item) (hs : s.current = c.root) (hinv : AInv s f a)
+    (hn : IndepO kvFree node = true) :
+    anyStep item any (atToRootO node) level first last ign un a v = anyStep item any node level first last ign un a v := by
+  unfold anyStep
+  cases hr : a.ret with
+  | some r => rfl
+  | none =>
+    have hcur := cur_of_AInv hinv hr hs
+    simp only [anyVisit_sub H node level first last ign un a v hcur hn]
+    have hinv1 := anyVisit_inv H.gI node level first last ign un s f a v hinv hr
+    cases hr1 : (anyVisit item node level first last ign un a v).ret with
+    | some r1 => rfl
+    | none => exact anyDescend_sub H node level first last ign un _ v (cur_of_AInv hinv1 hr1 hs) hn
+
+theorem executeAnyItem_sub (H : SubHyp c item bool any) (s : St) (node : Option Node) (vs : List Item) (f : Found)
+    (level first last : Nat) (ign un : Bool) (hs : s.current = c.root) (hn : IndepO kvFree node = true) :
+    executeAnyItem item any s (atToRootO node) vs f level first last ign un =
+      executeAnyItem item any s node vs f level first last ign un := by
+  unfold executeAnyItem
+  have h0 : AInv s f ⟨s, f, .notFound, none, none⟩ := by
+    refine ⟨fun r hr => by simp at hr, fun _ => ⟨⟨?_, fun h => by simpa [restoreIgn] using h⟩, Shape.refl f, rfl⟩⟩
+    simp [St.ctxEq, restoreIgn]
+  rw [foldl_sub (AInv s f) (anyStep item any node level first last ign un)
+    (anyStep item any (atToRootO node) level first last ign un) vs _ h0
+    (fun a v h => anyStep_inv H.gI H.gA node level first last ign un s f a v h)
+    (fun a v h => anyStep_sub H node level first last ign un s f a v hs h hn)]
+
+theorem anyInto_sub (H : SubHyp c item bool any) (s : St) (first last : Nat) (nx : Option Node) (v : Item) (f : Found)
+    (hs : s.current = c.root) (hn : IndepO kvFree nx = true) :
+    anyInto c any s first last (atToRootO nx) v f = anyInto c any s first last nx v f := by
+  unfold anyInto
+  cases v <;> simp only [H.sA s nx _ f 1 first last true c.lax hs hn]
+
+theorem execAnyNode_sub (H : SubHyp c item bool any) (s : St) (first last : Nat) (nx : Option Node) (v : Item)
+    (f : Found) (hs : s.current = c.root) (hn : IndepO kvFree nx = true) :
+    execAnyNode c item any s first last (atToRootO nx) v f = execAnyNode c item any s first last nx v f := by
+  unfold execAnyNode
+  have hs' : ({ s with ignoreSE := true } : St).current = c.root := hs
+  have hg := executeNextItem_good c H.gI { s with ignoreSE := true } nx v f
+  simp only [executeNextItem_sub H _ nx v f hs' hn, anyInto_sub H _ first last nx v _ (cur_good hg hs') hn,
+    anyInto_sub H s first last nx v f hs hn]
+
+/-! subscripts -/
+
+theorem getArrayIndex_sub (H : SubHyp c item bool any) (s : St) (n : Node) (v : Item)
+    (hs : s.current = c.root) (hn : Indep kvFree n = true) :
+    getArrayIndex c item s (atToRoot n) v = getArrayIndex c item s n v := by
+  unfold getArrayIndex
+  simp only [executeItem_sub H s n v _ hs hn]
+
+theorem getArrayIndex_cur (H : SubHyp c item bool any) (s : St) (n : Node) (v : Item) (hs : s.current = c.root) :
+    (getArrayIndex c item s n v).1.current = c.root := by
+  have hg := executeItem_good c H.gI s n v (some [])
+  have hc := cur_good (c := c) hg hs
+  unfold getArrayIndex
+  dsimp only
+  split
+  · split <;> exact hc
+  · split
+    · split <;> exact hc
+    · exact hc
+
+theorem execSubscript_sub (H : SubHyp c item bool any) (s : St) (sub : Node) (v : Item) (size : Int)
+    (hs : s.current = c.root) (hn : Indep kvFree sub = true) :
+    execSubscript c item s (atToRoot sub) v size = execSubscript c item s sub v size := by
+  cases sub with
+  | binary op l r nx =>
+    simp only [Indep, Bool.and_eq_true] at hn
+    cases op <;> try (simp only [atToRoot, execSubscript])
+    cases l with
+    | none => simp only [atToRootO_none]
+    | some ln =>
+      have hl : Indep kvFree ln = true := by simpa using hn.1.1
+      have hc1 := getArrayIndex_cur H s ln v hs
+      cases r with
+      | none => simp only [atToRootO_some, atToRootO_none, getArrayIndex_sub H s ln v hs hl]
+      | some rn =>
+        have hr : Indep kvFree rn = true := by simpa using hn.1.2
+        simp only [atToRootO_some, getArrayIndex_sub H s ln v hs hl]
+        cases hq : getArrayIndex c item s ln v with
+        | mk s1 res =>
+          rw [hq] at hc1
+          cases res with
+          | error e => rfl
+          | ok from_ => simp only [getArrayIndex_sub H s1 rn v hc1 hr]
+  | _ => simp only [atToRoot, atToRoot_unary, execSubscript]
+
+theorem cur_of_IMid {s s1 : St} (h : IMid s s1) (hs : s.current = c.root) : s1.current = c.root := by
+  have := h.1
+  simp [St.ctxEq, restoreInn] at this
+  rw [this.1, hs]
+
+theorem indexElemStep_sub (H : SubHyp c item bool any) (nx : Option Node) (s : St) (f : Found) (a : IAcc) (v : Item)
+    (hs : s.current = c.root) (hinv : IInv s f a) (hnx : IndepO kvFree nx = true) :
+    indexElemStep c item (atToRootO nx) a v = indexElemStep c item nx a v := by
+  unfold indexElemStep
+  cases hr : a.ret with
+  | some r => rfl
+  | none =>
+    have hcur := cur_of_IMid (c := c) (hinv.2 hr).1 hs
+    simp only [atToRootO_isNone, executeNextItem_sub H a.st nx v a.found hcur hnx]
+
+theorem indexSubStep_sub (H : SubHyp c item bool any) (nx : Option Node) (xs : List Item) (v : Item) (s : St)
+    (f : Found) (a : IAcc) (sub : Node) (hs : s.current = c.root) (hinv : IInv s f a)
+    (hnx : IndepO kvFree nx = true) (hsub : Indep kvFree sub = true) :
+    indexSubStep c item (atToRootO nx) xs v a (atToRoot sub) = indexSubStep c item nx xs v a sub := by
+  unfold indexSubStep
+  cases hr : a.ret with
+  | some r => rfl
+  | none =>
+    obtain ⟨hm, hsh⟩ := hinv.2 hr
+    have hcur := cur_of_IMid (c := c) hm hs
+    simp only [Option.isSome_none, Bool.false_eq_true, if_false, execSubscript_sub H a.st sub v _ hcur hsub]
+    have hgs := execSubscript_good c H.gI s a.st hm sub v xs.length
+    cases hq : execSubscript c item a.st sub v xs.length with
+    | mk s1 res =>
+      cases res with
+      | error e => rfl
+      | ok ft =>
+        obtain ⟨from_, to_⟩ := ft
+        simp only
+        unfold GoodIdx at hgs
+        rw [hq] at hgs
+        exact foldl_sub (IInv s f) (indexElemStep c item nx) (indexElemStep c item (atToRootO nx)) _ _
+          ⟨fun r hr' => by simp at hr', fun _ => ⟨hgs, hsh⟩⟩
+          (fun a' v' h' => indexElemStep_inv c H.gI nx s f a' v' h')
+          (fun a' v' h' => indexElemStep_sub H nx s f a' v' hs h' hnx)
+
+theorem execArrayIndex_sub (H : SubHyp c item bool any) (s : St) (subs : List Node) (nx : Option Node) (v : Item)
+    (f : Found) (hs : s.current = c.root) (hsubs : IndepL kvFree subs = true) (hnx : IndepO kvFree nx = true) :
+    execArrayIndex c item s (atToRootL subs) (atToRootO nx) v f = execArrayIndex c item s subs nx v f := by
+  unfold execArrayIndex
+  cases harr : arrayOf c v with
+  | none => rfl
+  | some xs =>
+    have hfold : ∀ (ss : List Node) (a : IAcc), IInv s f a → IndepL kvFree ss = true →
+        (atToRootL ss).foldl (indexSubStep c item (atToRootO nx) xs v) a = ss.foldl (indexSubStep c item nx xs v) a := by
+      intro ss
+      induction ss with
+      | nil => intro a _ _; rfl
+      | cons sb ss ih =>
+        intro a ha hss
+        simp only [IndepL, Bool.and_eq_true] at hss
+        simp only [atToRootL, List.foldl_cons]
+        rw [indexSubStep_sub H nx xs v s f a sb hs ha hnx hss.1]
+        exact ih _ (indexSubStep_inv c H.gI nx xs v s f a sb ha) hss.2
+    have h0 : IInv s f ⟨{ s with innermost := xs.length }, f, .notFound, none, none⟩ := by
+      refine ⟨fun r hr => by simp at hr, fun _ => ⟨⟨?_, fun h => by simpa [restoreInn] using h⟩, Shape.refl f⟩⟩
+      simp [St.ctxEq, restoreInn]
+    simp only [hfold subs _ h0 hsubs]
+
+/-! node dispatch -/
+
+theorem execBinaryNode_sub (H : SubHyp c item bool any) (s : St) (op : BinOp) (l r nx : Option Node) (v : Item)
+    (f : Found) (u : Bool) (hs : s.current = c.root) (hn : Indep kvFree (.binary op l r nx) = true) :
+    execBinaryNode c item bool any s (atToRoot (.binary op l r nx)) op (atToRootO l) (atToRootO r) (atToRootO nx) v f u =
+      execBinaryNode c item bool any s (.binary op l r nx) op l r nx v f u := by
+  have hn' := hn
+  simp only [Indep, Bool.and_eq_true] at hn'
+  unfold execBinaryNode
+  have hb := H.sB s (.binary op l r nx) v true hs hn
+  have hcur := cur_goodP (c := c) (H.gB s (.binary op l r nx) v true) hs
+  have hconv : convNumber (some (atToRootO l, atToRootO r)) = convNumber (some (l, r)) :=
+    funext (convNumber_sub l r)
+  simp only [hb, appendBoolResult_sub H nx f _ hcur hn'.2, execBinaryMathExpr_sub H s op l r nx v f hs hn'.1.1 hn'.1.2 hn'.2,
+    hconv, execConvMethod_sub H s (.binary op l r nx) nx v f u _ hs hn hn'.2]
+
+theorem execUnaryNode_sub (H : SubHyp c item bool any) (s : St) (op : UnOp) (x nx : Option Node) (v : Item)
+    (f : Found) (u : Bool) (hs : s.current = c.root) (hn : Indep kvFree (.unary op x nx) = true) :
+    execUnaryNode c item bool any s (atToRoot (.unary op x nx)) op (subOperand op x) (atToRootO nx) v f u =
+      execUnaryNode c item bool any s (.unary op x nx) op x nx v f u := by
+  have e : ({ kvFree with cur := true } : Flags) = kvFree := rfl
+  have hx : IndepO kvFree x = true := by
+    have h := hn
+    simp only [Indep, Bool.and_eq_true, e] at h
+    cases op <;> exact h.1
+  have hnx : IndepO kvFree nx = true := by
+    have h := hn
+    simp only [Indep, Bool.and_eq_true] at h
+    exact h.2
+  have hb := H.sB s (.unary op x nx) v true hs hn
+  have hcur := cur_goodP (c := c) (H.gB s (.unary op x nx) v true) hs
+  have hself := fun xs => anySelf_sub H s (.unary op x nx) xs f hs hn
+  cases op <;> simp only [execUnaryNode, subOperand, hb, appendBoolResult_sub H nx f _ hcur hnx,
+    execUnaryMathExpr_sub H s x nx v _ f hs hx hnx, executeDateTimeMethod_sub H s _ x nx v f hs hnx, hself,
+    unwrapTargetArray]
+  -- the filter: its condition is untouched; `@` is restored before the next step runs
+  cases x with
+  | none => rfl
+  | some cond =>
+    have hp : (executeNestedBoolItem bool s cond v).st.current = c.root := hs
+    simp only [executeNextItem_sub H _ nx v f hp hnx]
+
+theorem dispatch_sub (H : SubHyp c item bool any) (s : St) (n : Node) (v : Item) (f : Found) (u : Bool)
+    (hs : s.current = c.root) (hn : Indep kvFree n = true) :
+    dispatch c item bool any s (atToRoot n) v f u = dispatch c item bool any s n v f u := by
+  have e : ({ kvFree with lst := true } : Flags) = kvFree := rfl
+  cases n with
+  | const k nx =>
+    have hnx : IndepO kvFree nx = true := by simp only [Indep, Bool.and_eq_true] at hn; exact hn.2
+    have := execConstNode_sub H s (.const k nx) k nx v f u hs hn hnx
+    simp only [atToRoot] at this
+    simp only [atToRoot, dispatch, this]
+  | str t nx => simp only [atToRoot, dispatch]; exact execLiteral_sub H s nx _ f hs (by simpa [Indep] using hn)
+  | integer i nx => simp only [atToRoot, dispatch]; exact execLiteral_sub H s nx _ f hs (by simpa [Indep] using hn)
+  | numeric x nx => simp only [atToRoot, dispatch]; exact execLiteral_sub H s nx _ f hs (by simpa [Indep] using hn)
+  | var t nx => simp only [atToRoot, dispatch]; exact execVariable_sub H s t nx f hs (by simpa [Indep] using hn)
+  | key k nx =>
+    have := execKeyNode_sub H s (.key k nx) k nx v f u hs hn (by simpa [Indep] using hn)
+    simp only [atToRoot] at this
+    simp only [atToRoot, dispatch, this]
+  | binary op l r nx =>
+    have := execBinaryNode_sub H s op l r nx v f u hs hn
+    simp only [atToRoot] at this
+    simp only [atToRoot, dispatch, this]
+  | unary op x nx =>
+    have := execUnaryNode_sub H s op x nx v f u hs hn
+    simp only [atToRoot_unary] at this
+    simp only [atToRoot_unary, dispatch, this]
+  | regex x pt fl nx =>
+    have hb := H.sB s (.regex x pt fl nx) v true hs hn
+    have hcur := cur_goodP (c := c) (H.gB s (.regex x pt fl nx) v true) hs
+    have hnx : IndepO kvFree nx = true := by simp only [Indep, Bool.and_eq_true] at hn; exact hn.2
+    simp only [atToRoot] at hb
+    simp only [atToRoot, dispatch, hb, appendBoolResult_sub H nx f _ hcur hnx]
+  | method m nx =>
+    have hm : m ≠ .keyvalue := by
+      intro h; subst h; simp [Indep, kvFree] at hn
+    have hnx : IndepO kvFree nx = true := by simp only [Indep, Bool.and_eq_true] at hn; exact hn.2
+    have := execMethodNode_sub H s (.method m nx) m nx v f u hs hn hm hnx
+    simp only [atToRoot] at this
+    simp only [atToRoot, dispatch, this]
+  | any a b nx => simp only [atToRoot, dispatch]; exact execAnyNode_sub H s a b nx v f hs (by simpa [Indep] using hn)
+  | arrayIndex subs nx =>
+    simp only [Indep, Bool.and_eq_true, e] at hn
+    simp only [atToRoot, dispatch]
+    exact execArrayIndex_sub H s subs nx v f hs hn.1 hn.2
+
+end sub
+
+theorem poll_current {s s' : St} (h : poll s = some s') : s'.current = s.current := by
+  unfold poll at h
+  cases hb : s.budget with
+  | none => simp [hb] at h; rw [← h]
+  | some n => cases n <;> simp [hb] at h; rw [← h]
+
+/-- **replacing the free `@` by `$` does not change a run that starts with `@` = `$`** (nodes without
+    `.keyvalue()`: `$` also resets the base object of its ids) -/
+theorem sub_all (c : Ctx) : ∀ fuel : Nat,
+    (∀ s n v f u, s.current = c.root → Indep kvFree n = true →
+      xItem c fuel s (atToRoot n) v f u = xItem c fuel s n v f u) ∧
+    (∀ s n v b, s.current = c.root → Indep kvFree n = true →
+      xBool c fuel s (atToRoot n) v b = xBool c fuel s n v b) ∧
+    (∀ s node vs f l a b i u, s.current = c.root → IndepO kvFree node = true →
+      xAny c fuel s (atToRootO node) vs f l a b i u = xAny c fuel s node vs f l a b i u) := by
+  intro fuel
+  induction fuel with
+  | zero => exact ⟨fun _ _ _ _ _ _ _ => rfl, fun _ _ _ _ _ _ => rfl, fun _ _ _ _ _ _ _ _ _ _ _ => rfl⟩
+  | succ k ih =>
+    obtain ⟨gI, gB, gA⟩ := good_all c k
+    have H : SubHyp c (xItem c k) (xBool c k) (xAny c k) :=
+      { gI := gI, gB := gB, gA := gA, frI := (frame_all none c k).1, sI := ih.1, sB := ih.2.1, sA := ih.2.2 }
+    refine ⟨fun s n v f u hs hn => ?_, fun s n v b hs hn => ?_, fun s node vs f l a b i u hs hn => ?_⟩
+    · simp only [xItem]
+      cases hp : poll s with
+      | none => rfl
+      | some s' => exact dispatch_sub H s' n v f u ((poll_current hp).trans hs) hn
+    · simp only [xBool]; exact executeBoolItem_sub H s n v b hs hn
+    · simp only [xAny]; exact executeAnyItem_sub H s node vs f l a b i u hs hn
+end Aux
+
+open Aux
+
+/-! ## 2′. the rewriting `@` ↦ `$` -/
+
+/-- what the rewriting theorem needs of `C`: no `$` (inside the filter it is the original document) and no
+    `.keyvalue()` (`$` also makes the document the base object of the generated ids, `@` does not) -/
+def checkable : Flags := ⟨false, true, true, false⟩
+
+mutual
+  /-- after the rewriting no `@` is left outside nested filter conditions -/
+  theorem atToRoot_closed : ∀ (n : Node) (l k : Bool), Indep ⟨true, true, l, k⟩ n = true →
+      Indep ⟨true, false, l, k⟩ (atToRoot n) = true
+    | .const c nx, l, k, h => by
+      have ih := atToRootO_closed nx l k
+      simp only [Indep, Bool.and_eq_true] at h
+      simp only [atToRoot, Indep, Bool.and_eq_true]
+      refine ⟨?_, ih h.2⟩
+      have h1 := h.1
+      cases c <;> simp_all [subConst]
+    | .method m nx, l, k, h => by
+      have ih := atToRootO_closed nx l k
+      simp only [Indep, Bool.and_eq_true] at h
+      simp only [atToRoot, Indep, Bool.and_eq_true]
+      exact ⟨h.1, ih h.2⟩
+    | .str _ nx, l, k, h | .var _ nx, l, k, h | .key _ nx, l, k, h | .numeric _ nx, l, k, h
+    | .integer _ nx, l, k, h | .any _ _ nx, l, k, h => by
+      have ih := atToRootO_closed nx l k
+      simp_all [atToRoot, Indep]
+    | .binary _ a b nx, l, k, h => by
+      have ih := atToRootO_closed nx l k
+      have ih1 := atToRootO_closed a l k
+      have ih2 := atToRootO_closed b l k
+      simp_all [atToRoot, Indep]
+    | .unary op x nx, l, k, h => by
+      have ih := atToRootO_closed nx l k
+      have ih1 := atToRootO_closed x l k
+      cases op <;> simp_all [atToRoot, Indep]
+    | .regex x _ _ nx, l, k, h => by
+      have ih := atToRootO_closed nx l k
+      have ih1 := atToRoot_closed x l k
+      simp_all [atToRoot, Indep]
+    | .arrayIndex subs nx, l, k, h => by
+      have ih := atToRootO_closed nx true k
+      have ih1 := atToRootL_closed subs true k
+      simp_all [atToRoot, Indep]
+  theorem atToRootO_closed : ∀ (n : Option Node) (l k : Bool), IndepO ⟨true, true, l, k⟩ n = true →
+      IndepO ⟨true, false, l, k⟩ (atToRootO n) = true
+    | none, _, _, _ => by simp
+    | some n, l, k, h => by
+      have ih := atToRoot_closed n l k
+      simp_all
+  theorem atToRootL_closed : ∀ (n : List Node) (l k : Bool), IndepL ⟨true, true, l, k⟩ n = true →
+      IndepL ⟨true, false, l, k⟩ (atToRootL n) = true
+    | [], _, _, _ => by simp [atToRootL, IndepL]
+    | n :: ns, l, k, h => by
+      have ih := atToRoot_closed n l k
+      have ih1 := atToRootL_closed ns l k
+      simp_all [atToRootL, IndepL]
+end
+
+theorem atToRoot_isBoolNode (C : Node) : isBoolNode (atToRoot C) = isBoolNode C := by
+  cases C with
+  | unary op x nx => cases op <;> simp [atToRoot, isBoolNode]
+  | _ => simp [atToRoot, isBoolNode]
+
+/-- **a run on the document `x` does not change when the free `@` are rewritten to `$`** (at the top level both
+    denote `x`) -/
+theorem execute_atToRoot (fuel : Nat) (C : Node) (lax pred : Bool) (x : Item) (o : Opts) (hC : Indep kvFree C = true) :
+    execute fuel ⟨atToRoot C, lax, pred⟩ x o = execute fuel ⟨C, lax, pred⟩ x o := by
+  rw [C09b.execute_eq, C09b.execute_eq]
+  exact (sub_all (mkCtx ⟨C, lax, pred⟩ x o) fuel).1 (initSt ⟨C, lax, pred⟩ x o) C x (some []) lax rfl hC
+
+theorem queryWith_atToRoot (fuel : Nat) (C : Node) (lax pred : Bool) (x : Item) (o : Opts) (hC : Indep kvFree C = true) :
+    queryWith fuel ⟨atToRoot C, lax, pred⟩ x o = queryWith fuel ⟨C, lax, pred⟩ x o := by
+  unfold queryWith; rw [execute_atToRoot fuel C lax pred x o hC]
+
+theorem matchWith_atToRoot (fuel : Nat) (C : Node) (lax pred : Bool) (x : Item) (o : Opts) (hC : Indep kvFree C = true) :
+    matchWith fuel ⟨atToRoot C, lax, pred⟩ x o = matchWith fuel ⟨C, lax, pred⟩ x o := by
+  unfold matchWith; rw [execute_atToRoot fuel C lax pred x o hC]
+
+theorem checkable_noRoot {C : Node} (h : Indep checkable C = true) : Indep noRoot C = true :=
+  indep_mono C checkable noRoot (by simp [Flags.le, checkable, noRoot]) h
+
+theorem checkable_kvFree {C : Node} (h : Indep checkable C = true) : Indep kvFree C = true :=
+  indep_mono C checkable kvFree (by simp [Flags.le, checkable, kvFree]) h
+
+/-- **C10: an item is kept exactly when `C`, rewritten as a predicate check expression over that item (`@` ↦ `$`),
+    yields true.**  Side conditions: `C` has no `$` and no `.keyvalue()`; it is a predicate (`isBoolNode`) with
+    nothing chained after it; its evaluation on `x` finishes within the fuel and does not panic. -/
+theorem kept_iff_rewritten_check (fuel : Nat) (a : AST) (C : Node) (doc x : Item) (o : Opts)
+    (hC : Indep checkable C = true) (hnx : C.next = none) (hB : isBoolNode C = true) (ho : o.budget = none)
+    (hfin : (condRun (mkCtx a doc o) fuel (initSt a doc o) C x).st.oof = false)
+    (hpan : (condRun (mkCtx a doc o) fuel (initSt a doc o) C x).st.panicked = false) :
+    kept a doc o fuel C x = true ↔ queryWith (fuel + 1) ⟨atToRoot C, a.lax, true⟩ x o = .items [.bool true] := by
+  rw [queryWith_atToRoot _ _ _ _ _ _ (checkable_kvFree hC)]
+  exact kept_iff_predicate_check fuel a C doc x o (checkable_noRoot hC) hnx hB ho hfin hpan
+
+/-- the same with `exec.Match` -/
+theorem kept_iff_rewritten_match (fuel : Nat) (a : AST) (C : Node) (doc x : Item) (o : Opts)
+    (hC : Indep checkable C = true) (hnx : C.next = none) (hB : isBoolNode C = true) (ho : o.budget = none)
+    (hfin : (condRun (mkCtx a doc o) fuel (initSt a doc o) C x).st.oof = false)
+    (hpan : (condRun (mkCtx a doc o) fuel (initSt a doc o) C x).st.panicked = false) :
+    kept a doc o fuel C x = true ↔ matchWith (fuel + 1) ⟨atToRoot C, a.lax, true⟩ x o = .bool true := by
+  rw [matchWith_atToRoot _ _ _ _ _ _ (checkable_kvFree hC)]
+  exact kept_iff_match fuel a C doc x o (checkable_noRoot hC) hnx hB ho hfin hpan
+
+/-! ## 3. consecutive filters and the filter on the conjunction -/
+
+theorem andNode_indep {C1 C2 : Node} (h1 : Indep sufFlags C1 = true) (h2 : Indep sufFlags C2 = true) :
+    Indep sufFlags (andNode C1 C2) = true := by
+  simp [andNode, Indep, h1, h2]
+
+/-- **fusion, executor level, both modes.**  `A12` = the run of `P ? (C₁) ? (C₂)`, `Af` = the run of
+    `P ? (C₁ && C₂)`, `xs'` = the items of `P` (unwrapped one level in lax mode).  If neither condition raises a
+    non-suppressible error on the items `xs'`, and — in lax mode — no item that passes `C₁` is an array (so that the
+    second filter has nothing to unwrap again), both runs return `l` followed by the items of `xs'` on which both
+    conditions are true, and end alike.  (Fuel: the two runs and the run of `P ? (C₁)` finish.) -/
+theorem filter_fusion_exec (c : Ctx) (C1 C2 : Node) (hC1 : Indep sufFlags C1 = true) (hC2 : Indep sufFlags C2 = true)
+    (fuel : Nat) (s : St) (hb : s.budget = none) (P : Node) (hc : s.ignoreSE = true ∨ NoAny P = true) (l : List Item)
+    (v : Item) (u : Bool)
+    (hf12 : (xItem c fuel s (append (append P (filterNode C1)) (filterNode C2)) v (some l) u).st.oof = false)
+    (hf1 : (xItem c fuel s (append P (filterNode C1)) v (some []) u).st.oof = false)
+    (hfa : (xItem c fuel s (append P (filterNode (andNode C1 C2))) v (some l) u).st.oof = false)
+    (herr : ∀ x ∈ unwrap1 c.lax ((xItem c fuel s P v (some []) u).found.getD []),
+      condErr c fuel s C1 x = none ∧ condErr c fuel s C2 x = none)
+    (hflat : c.lax = true → ∀ x ∈ unwrap1 c.lax ((xItem c fuel s P v (some []) u).found.getD []),
+      holds c fuel s C1 x = true → x.isArr = false) :
+    let A12 := xItem c fuel s (append (append P (filterNode C1)) (filterNode C2)) v (some l) u
+    let Af := xItem c fuel s (append P (filterNode (andNode C1 C2))) v (some l) u
+    let xs' := unwrap1 c.lax ((xItem c fuel s P v (some []) u).found.getD [])
+    A12.found = some (l ++ xs'.filter (fun x => holds c fuel s C1 x && holds c fuel s C2 x)) ∧
+      Af.found = A12.found ∧ Af.err = A12.err ∧ (Af.status = .failed ↔ A12.status = .failed) ∧
+      A12.err = (xItem c fuel s P v (some []) u).err := by
+  intro A12 Af xs'
+  -- the first filter
+  obtain ⟨p1, p2, p3⟩ := filter_subsequence_exec c C1 hC1 fuel s hb P hc [] v u hf1 (fun x hx => (herr x hx).1)
+  have hB1 : (xItem c fuel s (append P (filterNode C1)) v (some []) u).found.getD [] =
+      xs'.filter (holds c fuel s C1) := by rw [p1]; rfl
+  have hu : unwrap1 c.lax (xs'.filter (holds c fuel s C1)) = xs'.filter (holds c fuel s C1) := by
+    cases hl : c.lax with
+    | false => exact unwrap1_strict _
+    | true =>
+      apply unwrap1_of_noArr
+      intro x hx
+      have hx' := List.mem_filter.mp hx
+      exact hflat hl x hx'.1 hx'.2
+  -- the second filter
+  obtain ⟨q1, q2, q3⟩ := filter_subsequence_exec c C2 hC2 fuel s hb (append P (filterNode C1))
+    (chainOK_append_filter hc C1) l v u hf12
+    (by rw [hB1, hu]; intro x hx; exact (herr x (List.mem_filter.mp hx).1).2)
+  rw [hB1, hu] at q1
+  -- the filter on the conjunction
+  obtain ⟨g1, g2, _, g4⟩ := filter_scan_exec c (andNode C1 C2) (andNode_indep hC1 hC2) fuel s hb P hc l v u hfa
+  have hsc := scan_and c C1 C2 (kvFree_of_suf hC1) (kvFree_of_suf hC2) fuel s hb xs' g4 herr
+  rw [hsc] at g1 g2
+  obtain ⟨g2a, g2b⟩ := g2 rfl
+  have hff : (xs'.filter (holds c fuel s C1)).filter (holds c fuel s C2) =
+      xs'.filter (fun x => holds c fuel s C1 x && holds c fuel s C2 x) := by
+    rw [List.filter_filter]
+    exact List.filter_congr (fun x _ => Bool.and_comm _ _)
+  rw [hff] at q1
+  refine ⟨q1, ?_, ?_, ?_, by show A12.err = _; rw [q2, p2]⟩
+  · show Af.found = A12.found
+    rw [q1]; exact g1
+  · show Af.err = A12.err
+    rw [g2a, q2, p2]
+  · show Af.status = .failed ↔ A12.status = .failed
+    rw [g2b, q3, p3]
+
+/-- **C10, fusion** (`Query` level, both modes; strict mode is `strict_filter_fusion`).  If `Query(P, doc)` returns
+    `xs`, neither `C₁` nor `C₂` raises a non-suppressible error on those items (unwrapped one level in lax mode),
+    and in lax mode no item passing `C₁` is an array, then `Query(P ? (C₁) ? (C₂), doc)` and
+    `Query(P ? (C₁ && C₂), doc)` — when neither runs out of fuel or panics — both return the items on which both
+    conditions are true. -/
+theorem filter_fusion (fuel : Nat) (a : AST) (P C1 C2 : Node) (doc : Item) (o : Opts) (xs : List Item)
+    (hC1 : Indep sufFlags C1 = true) (hC2 : Indep sufFlags C2 = true) (ho : o.budget = none)
+    (hchain : a.lax = true ∨ NoAny P = true)
+    (hP : C09b.Ran (execute fuel (C09b.withRoot a P) doc o) xs)
+    (hq1 : queryWith fuel (C09b.withRoot a (append P (filterNode C1))) doc o ≠ .outOfFuel)
+    (hq12 : queryWith fuel (C09b.withRoot a (append (append P (filterNode C1)) (filterNode C2))) doc o ≠ .outOfFuel)
+    (hp12 : queryWith fuel (C09b.withRoot a (append (append P (filterNode C1)) (filterNode C2))) doc o ≠ .panic)
+    (hqa : queryWith fuel (C09b.withRoot a (append P (filterNode (andNode C1 C2)))) doc o ≠ .outOfFuel)
+    (hpa : queryWith fuel (C09b.withRoot a (append P (filterNode (andNode C1 C2)))) doc o ≠ .panic)
+    (herr : ∀ x ∈ unwrap1 a.lax xs, hardErr a doc o fuel C1 x = none ∧ hardErr a doc o fuel C2 x = none)
+    (hflat : a.lax = true → ∀ x ∈ unwrap1 a.lax xs, kept a doc o fuel C1 x = true → x.isArr = false) :
+    queryWith fuel (C09b.withRoot a (append (append P (filterNode C1)) (filterNode C2))) doc o =
+        .items ((unwrap1 a.lax xs).filter (fun x => kept a doc o fuel C1 x && kept a doc o fuel C2 x)) ∧
+      queryWith fuel (C09b.withRoot a (append P (filterNode (andNode C1 C2)))) doc o =
+        queryWith fuel (C09b.withRoot a (append (append P (filterNode C1)) (filterNode C2))) doc o := by
+  have e12 : execute fuel (C09b.withRoot a (append (append P (filterNode C1)) (filterNode C2))) doc o =
+      xItem (mkCtx a doc o) fuel (initSt a doc o) (append (append P (filterNode C1)) (filterNode C2)) doc (some []) a.lax :=
+    C09b.execute_eq _ _ _ _
+  have e1 : execute fuel (C09b.withRoot a (append P (filterNode C1))) doc o =
+      xItem (mkCtx a doc o) fuel (initSt a doc o) (append P (filterNode C1)) doc (some []) a.lax :=
+    C09b.execute_eq _ _ _ _
+  have ea : execute fuel (C09b.withRoot a (append P (filterNode (andNode C1 C2)))) doc o =
+      xItem (mkCtx a doc o) fuel (initSt a doc o) (append P (filterNode (andNode C1 C2))) doc (some []) a.lax :=
+    C09b.execute_eq _ _ _ _
+  have eB : execute fuel (C09b.withRoot a P) doc o =
+      xItem (mkCtx a doc o) fuel (initSt a doc o) P doc (some []) a.lax := C09b.execute_eq _ _ _ _
+  have hBf : (xItem (mkCtx a doc o) fuel (initSt a doc o) P doc (some []) a.lax).found = some xs := by
+    rw [← eB]; exact hP.found
+  have h := filter_fusion_exec (mkCtx a doc o) C1 C2 hC1 hC2 fuel (initSt a doc o) ho P hchain [] doc a.lax
+    (by rw [← e12]; exact not_oof hq12) (by rw [← e1]; exact not_oof hq1) (by rw [← ea]; exact not_oof hqa)
+    (by rw [hBf]; exact herr) (by rw [hBf]; exact hflat)
+  dsimp only at h
+  rw [hBf, ← e12, ← ea, ← eB] at h
+  obtain ⟨h1, h2, h3, _, h5⟩ := h
+  have hBe : (execute fuel (C09b.withRoot a P) doc o).err = none := err_none_of_good (execute_good _ _ _ _) hP.ok
+  have h12e : (execute fuel (C09b.withRoot a (append (append P (filterNode C1)) (filterNode C2))) doc o).err = none := by
+    rw [h5, hBe]
+  have r12 : queryWith fuel (C09b.withRoot a (append (append P (filterNode C1)) (filterNode C2))) doc o =
+      .items ((unwrap1 a.lax xs).filter (fun x => kept a doc o fuel C1 x && kept a doc o fuel C2 x)) := by
+    unfold queryWith guarded
+    simp only [not_oof hq12, not_panicked hq12 hp12, h12e, h1]
+    rfl
+  refine ⟨r12, ?_⟩
+  rw [r12]
+  unfold queryWith guarded
+  simp only [not_oof hqa, not_panicked hqa hpa, h3, h12e, h2, h1]
+  rfl
+
+/-- **C10, fusion in strict mode**: consecutive filters free of non-suppressible errors equal one filter on their
+    conjunction -/
+theorem strict_filter_fusion (fuel : Nat) (a : AST) (P C1 C2 : Node) (doc : Item) (o : Opts) (xs : List Item)
+    (hstrict : a.lax = false)
+    (hC1 : Indep sufFlags C1 = true) (hC2 : Indep sufFlags C2 = true) (ho : o.budget = none) (hchain : NoAny P = true)
+    (hP : C09b.Ran (execute fuel (C09b.withRoot a P) doc o) xs)
+    (hq1 : queryWith fuel (C09b.withRoot a (append P (filterNode C1))) doc o ≠ .outOfFuel)
+    (hq12 : queryWith fuel (C09b.withRoot a (append (append P (filterNode C1)) (filterNode C2))) doc o ≠ .outOfFuel)
+    (hp12 : queryWith fuel (C09b.withRoot a (append (append P (filterNode C1)) (filterNode C2))) doc o ≠ .panic)
+    (hqa : queryWith fuel (C09b.withRoot a (append P (filterNode (andNode C1 C2)))) doc o ≠ .outOfFuel)
+    (hpa : queryWith fuel (C09b.withRoot a (append P (filterNode (andNode C1 C2)))) doc o ≠ .panic)
+    (herr : ∀ x ∈ xs, hardErr a doc o fuel C1 x = none ∧ hardErr a doc o fuel C2 x = none) :
+    queryWith fuel (C09b.withRoot a (append (append P (filterNode C1)) (filterNode C2))) doc o =
+        .items (xs.filter (fun x => kept a doc o fuel C1 x && kept a doc o fuel C2 x)) ∧
+      queryWith fuel (C09b.withRoot a (append P (filterNode (andNode C1 C2)))) doc o =
+        queryWith fuel (C09b.withRoot a (append (append P (filterNode C1)) (filterNode C2))) doc o := by
+  have h := filter_fusion fuel a P C1 C2 doc o xs hC1 hC2 ho (Or.inr hchain) hP hq1 hq12 hp12 hqa hpa
+    (by rw [hstrict, unwrap1_strict]; exact herr) (by rw [hstrict]; intro h; cases h)
+  rw [hstrict, unwrap1_strict] at h
+  exact h
+
+/-! ## non-vacuity and the lax counterexample (all by evaluation) -/
+
+section examples
+
+def exGt (n : Int) : Node := .binary .gt (some (.const .current none)) (some (.integer n none)) none
+def exLt (n : Int) : Node := .binary .lt (some (.const .current none)) (some (.integer n none)) none
+/-- `$[*]` -/
+def exStar : Node := .const .root (some (.const .anyArray none))
+/-- `[1, 5, "a", 3, 9]` -/
+def exNums : Item := .arr [.int 1, .int 5, .str ['a'], .int 3, .int 9]
+
+example : Indep sufFlags (exGt 2) = true := rfl
+example : append exStar (filterNode (exGt 2)) =
+    .const .root (some (.const .anyArray (some (.unary .filter (some (exGt 2)) none)))) := rfl
+
+/-- strict `$[*] ? (@ > 2)`: `"a" > 2` is unknown and dropped; order kept -/
+example : queryWith 30 ⟨append exStar (filterNode (exGt 2)), false, false⟩ exNums {} = .items [.int 5, .int 3, .int 9] := rfl
+/-- lax `$ ? (@ > 2)`: the document (an array) is unwrapped one level; strict: it is one item, `[..] > 2` is unknown -/
+example : queryWith 30 ⟨append (.const .root none) (filterNode (exGt 2)), true, false⟩ exNums {} =
+    .items [.int 5, .int 3, .int 9] := rfl
+example : queryWith 30 ⟨append (.const .root none) (filterNode (exGt 2)), false, false⟩ exNums {} = .items [] := rfl
+
+/-- `filter_subsequence` applied to concrete data -/
+example : queryWith 30 (C09b.withRoot ⟨exStar, false, false⟩ (append exStar (filterNode (exGt 2)))) exNums {} =
+    .items ((unwrap1 false [.int 1, .int 5, .str ['a'], .int 3, .int 9]).filter
+      (kept ⟨exStar, false, false⟩ exNums {} 30 (exGt 2))) :=
+  filter_subsequence 30 ⟨exStar, false, false⟩ exStar (exGt 2) exNums {} [.int 1, .int 5, .str ['a'], .int 3, .int 9]
+    rfl rfl (Or.inr rfl) ⟨rfl, rfl, C09b.ne_failed_of_ok rfl, rfl⟩
+    (by intro h
+        have h2 : queryWith 30 ⟨append exStar (filterNode (exGt 2)), false, false⟩ exNums {} = .items [.int 5, .int 3, .int 9] := rfl
+        exact absurd (h2.symm.trans h) (by intro h3; cases h3))
+    (by intro h
+        have h2 : queryWith 30 ⟨append exStar (filterNode (exGt 2)), false, false⟩ exNums {} = .items [.int 5, .int 3, .int 9] := rfl
+        exact absurd (h2.symm.trans h) (by intro h3; cases h3))
+    (by intro x hx
+        rw [unwrap1_strict] at hx
+        simp only [List.mem_cons, List.not_mem_nil, or_false] at hx
+        rcases hx with rfl | rfl | rfl | rfl | rfl <;> rfl)
+
+/-- a suppressible error inside the condition (strict `@.a` on `{}`) makes it unknown: the item is dropped, the
+    query goes on -/
+def exA : List Char := ['a']
+def exAGt1 : Node := .binary .gt (some (.const .current (some (.key exA none)))) (some (.integer 1 none)) none
+example : queryWith 30 ⟨append exStar (filterNode exAGt1), false, false⟩
+    (.arr [.obj [(exA, .int 2)], .obj [], .obj [(exA, .int 0)]]) {} = .items [.obj [(exA, .int 2)]] := rfl
+
+/-- a non-suppressible error (missing variable) fails the query -/
+def exGtVar : Node := .binary .gt (some (.const .current none)) (some (.var ['x'] none)) none
+example : hardErr ⟨exStar, false, false⟩ exNums {} 30 exGtVar (.int 1) = some (.hard .noVar) := rfl
+example : queryWith 30 ⟨append exStar (filterNode exGtVar), false, false⟩ exNums {} = .error (.hard .noVar) := rfl
+
+/-- kept iff the predicate check is true: `5 > 2` -/
+example : kept ⟨exStar, false, false⟩ exNums {} 30 (exGt 2) (.int 5) = true := rfl
+example : queryWith 31 ⟨exGt 2, false, true⟩ (.int 5) {} = .items [.bool true] := rfl
+example : matchWith 31 ⟨exGt 2, false, true⟩ (.int 5) {} = .bool true := rfl
+example : isBoolNode (exGt 2) = true ∧ Indep noRoot (exGt 2) = true := ⟨rfl, rfl⟩
+
+/-- the rewriting: `@ > 2` becomes `$ > 2`, and `[5]`… the item `5` is kept iff `$ > 2` is true on the document `5` -/
+example : atToRoot (exGt 2) = .binary .gt (some (.const .root none)) (some (.integer 2 none)) none := rfl
+example : queryWith 31 ⟨atToRoot (exGt 2), false, true⟩ (.int 5) {} = .items [.bool true] := rfl
+example : Indep checkable (exGt 2) = true := rfl
+/-- a nested filter keeps its own `@`: `exists(@.a ? (@ > 1))` becomes `exists($.a ? (@ > 1))` -/
+example : atToRoot (.unary .exists (some (.const .current (some (.key exA (some (filterNode (exGt 1))))))) none) =
+    .unary .exists (some (.const .root (some (.key exA (some (filterNode (exGt 1))))))) none := rfl
+
+/-- fusion, strict: `$[*] ? (@ > 2) ? (@ < 8)` = `$[*] ? (@ > 2 && @ < 8)` -/
+example : queryWith 30 ⟨append (append exStar (filterNode (exGt 2))) (filterNode (exLt 8)), false, false⟩ exNums {} =
+    .items [.int 5, .int 3] := rfl
+example : queryWith 30 ⟨append exStar (filterNode (andNode (exGt 2) (exLt 8))), false, false⟩ exNums {} =
+    .items [.int 5, .int 3] := rfl
+
+/-- **fusion is false in lax mode** (without the side condition of `filter_fusion`): on `[[1,2]]`,
+    `lax $ ? (@.type() == "array") ? (@.type() == "number")` unwraps the document to `[1,2]`, keeps it, and the
+    second filter unwraps it *again* to `1`, `2` — result `[1, 2]`; `lax $ ? (@.type() == "array" && @.type() ==
+    "number")` tests `[1,2]` itself — result `[]`.  In strict mode both are `[]`. -/
+def exTypeIs (t : String) : Node :=
+  .binary .eq (some (.const .current (some (.method .type none)))) (some (.str t.toList none)) none
+theorem counterexample_lax_fusion :
+    queryWith 30 ⟨append (append (.const .root none) (filterNode (exTypeIs "array"))) (filterNode (exTypeIs "number")),
+      true, false⟩ (.arr [.arr [.int 1, .int 2]]) {} = .items [.int 1, .int 2] ∧
+    queryWith 30 ⟨append (.const .root none) (filterNode (andNode (exTypeIs "array") (exTypeIs "number"))),
+      true, false⟩ (.arr [.arr [.int 1, .int 2]]) {} = .items [] ∧
+    queryWith 30 ⟨append (append (.const .root none) (filterNode (exTypeIs "array"))) (filterNode (exTypeIs "number")),
+      false, false⟩ (.arr [.arr [.int 1, .int 2]]) {} = .items [] ∧
+    queryWith 30 ⟨append (.const .root none) (filterNode (andNode (exTypeIs "array") (exTypeIs "number"))),
+      false, false⟩ (.arr [.arr [.int 1, .int 2]]) {} = .items [] := ⟨rfl, rfl, rfl, rfl⟩
+
+end examples
 
 end C10b
 end Sqljson
